@@ -244,4 +244,1631 @@ theorem doType_erase (g1 g2 : Glob) (c1 c2 : Option Cond) (sec : String) (toks :
         | none => simp [h1, h2] at hg
         | some t2 => simp [h1, h2] at hg; simpa using hg
 
+/-! ## Part B: the simulation relation -/
+
+def condOf : Option (Bool × String) → Option Cond
+  | none => none
+  | some (true, t) => some ⟨"ifdef", t⟩
+  | some (false, t) => some ⟨"ifndef", t⟩
+
+/-- the open collected moleculetype, as a list of groups (`if self.current_itp:`) -/
+def openOf (it : Option Group) : List Group :=
+  match it with
+  | some g => if g.isEmpty then [] else [g]
+  | none => []
+
+def activeOf (it : Option Group) : Bool := match it with | some g => !g.isEmpty | none => false
+
+theorem itpActive_eq (l : Loc) : itpActive l = activeOf l.itp := rfl
+
+def WellItp (it : Option Group) : Prop := it = none ∨ ∃ g, it = some g ∧ g ≠ []
+
+structure SameTables (a b : Glob) : Prop where
+  defines : a.defines = b.defines
+  defaults : a.defaults = b.defaults
+  atomTypes : a.atomTypes = b.atomTypes
+  nonbond : a.nonbond = b.nonbond
+  types : eraseTypes a.types = eraseTypes b.types
+
+/-- names of the groups the tree has already handed to `read_itp` -/
+structure NamesOk (groups : List Group) (blockNames : List String) : Prop where
+  good : ∀ grp ∈ groups, ∃ n, groupName grp = .ok n
+  set : ∀ n, blockNames.contains n = true ↔ ∃ grp ∈ groups, groupName grp = .ok n
+
+/-- global part: tables, macro set, nothing expanded yet -/
+structure RelG (defs : List String) (Gt Gf : Glob) : Prop where
+  tables : SameTables Gt Gf
+  defsOk : ∀ tag, defs.contains tag = (assocGet Gt.defines tag).isSome
+  gfEmpty : Gf.groups = [] ∧ Gf.blockNames = [] ∧ Gf.molecules = [] ∧ Gf.molIdx = []
+  gtMols : Gt.molecules = [] ∧ Gt.molIdx = []
+  names : NamesOk Gt.groups Gt.blockNames
+
+/-- conditional part; `frozen`/`fc`: the current file was included from inside the conditional `fc` -/
+structure RelC (w : WfSt) (frozen : Bool) (fc : Option Cond) (defines : List (String × Option (List String)))
+    (ct cf : Option Cond) : Prop where
+  condT : ct = condOf w.cond
+  condF : if frozen then (cf = fc ∧ fc.isSome = true ∧ switchedOff { defines := defines } fc = false ∧ w.cond = none)
+          else cf = ct
+  /-- no evaluated conditional is open once a moleculetype has been seen -/
+  condPhase : w.phase2 = true → w.cond = none
+
+/-- section part -/
+structure RelS (w : WfSt) (st sf : List String) : Prop where
+  shapeT : SecShape st
+  shapeF : SecShape sf
+  secEq : w.fresh = false → st = sf
+  secMol : w.secMol = true ↔ (st = ["moleculetype"] ∨ ∃ y, st = ["moleculetype", y])
+  molSec : w.molSec = true ↔ st = ["molecules"]
+
+/-- moleculetype / `[molecules]` part; `anc`, `m0`: groups and molecule lines pending in the including directors -/
+structure RelI (w : WfSt) (isTop : Bool) (anc : List Group) (m0 : List (String × String)) (gr : List Group)
+    (it : Option Group) (ilt : List Group) (mt : List (String × String))
+    (itf : Option Group) (ilf : List Group) (mf : List (String × String)) : Prop where
+  ownT : w.own = activeOf it
+  itpT : WellItp it
+  itpF : WellItp itf
+  phaseF : w.phase2 = activeOf itf
+  ownPhase : w.own = true → w.phase2 = true
+  secMolOwn : w.secMol = true → w.own = true
+  mols : mf = m0 ++ mt
+  molsTop : isTop = false → mt = []
+  perm : ((gr ++ anc ++ ilt ++ openOf it).map sealGroup).Perm ((ilf ++ openOf itf).map sealGroup)
+  alive : w.fresh = false → w.secMol = true →
+    it = itf ∧ ((gr ++ anc ++ ilt).map sealGroup).Perm (ilf.map sealGroup)
+
+/-- the relation between the scan state `w`, the tree run (global `Gt`, current director `Lt`) and the single
+director `(Gf, Lf)` over the text flattened so far; `defs` = the flattener's macro set -/
+structure Rel (w : WfSt) (frozen isTop : Bool) (fc : Option Cond) (anc : List Group) (m0 : List (String × String))
+    (defs : List String) (Gt : Glob) (Lt : Loc) (Gf : Glob) (Lf : Loc) : Prop where
+  g : RelG defs Gt Gf
+  c : RelC w frozen fc Gf.defines Lt.cond Lf.cond
+  s : RelS w Lt.sec Lf.sec
+  i : RelI w isTop anc m0 Gt.groups Lt.itp Lt.itpLines Lt.mols Lf.itp Lf.itpLines Lf.mols
+
+theorem switchedOff_defines (g : Glob) (c : Option Cond) : switchedOff g c = switchedOff { defines := g.defines } c := by
+  cases c <;> rfl
+
+theorem activeOf_iff (it : Option Group) : activeOf it = true ↔ ∃ g, it = some g ∧ g ≠ [] := by
+  cases it with
+  | none => simp [activeOf]
+  | some g => cases g <;> simp [activeOf]
+
+theorem openOf_some (g : Group) (hg : g ≠ []) : openOf (some g) = [g] := by
+  cases g with
+  | nil => exact absurd rfl hg
+  | cons a b => rfl
+
+/-- table facts: which sections the handlers that look at the director state belong to -/
+theorem handler_molecules : (Tables.Top.sections.all fun s => s.2 != "_molecules" || s.1 == ["molecules"]) = true := by
+  decide
+
+theorem handler_molecule : (Tables.Top.sections.all fun s => s.2 != "_molecule" ||
+    (s.1 == ["moleculetype"] || (s.1.length == 2 && s.1.head? == some "moleculetype"))) = true := by decide
+
+theorem handlerOf_molecules (sec : List String) (h : handlerOf sec = some "_molecules") : sec = ["molecules"] := by
+  unfold handlerOf at h
+  split at h
+  · simp at h
+  · cases hf : Tables.Top.sections.find? (fun x => x.1 == sec) with
+    | none => simp [hf] at h
+    | some e =>
+      simp [hf] at h
+      have hm := List.mem_of_find?_eq_some hf
+      have hk := List.find?_some hf
+      have := List.all_eq_true.mp handler_molecules e hm
+      simp [h] at this
+      simp at hk
+      rw [← hk, this]
+
+theorem handlerOf_molecule (sec : List String) (hs : SecShape sec) (h : handlerOf sec = some "_molecule") :
+    sec = ["moleculetype"] ∨ ∃ y, sec = ["moleculetype", y] := by
+  unfold handlerOf at h
+  split at h
+  · simp at h
+  · cases hf : Tables.Top.sections.find? (fun x => x.1 == sec) with
+    | none => simp [hf] at h
+    | some e =>
+      simp [hf] at h
+      have hm := List.mem_of_find?_eq_some hf
+      have hk := List.find?_some hf
+      have := List.all_eq_true.mp handler_molecule e hm
+      simp [h] at this
+      simp at hk
+      rw [hk] at this
+      cases hs with
+      | empty => simp at this
+      | one n => left; simpa using this
+      | mol x => right; exact ⟨x, rfl⟩
+
+/-! ### content lines -/
+
+theorem activeOf_snoc (grp : Group) (x : ItpLine) : activeOf (some (grp ++ [x])) = true :=
+  (activeOf_iff _).mpr ⟨_, rfl, by simp⟩
+
+theorem activeOf_well (it : Option Group) (g : Group) (hw : WellItp it) (h : it = some g) : activeOf it = true := by
+  rcases hw with hn | ⟨g', hg, hgne⟩
+  · rw [h] at hn; cases hn
+  · exact (activeOf_iff _).mpr ⟨g', hg, hgne⟩
+
+theorem sim_content (w : WfSt) (frozen isTop : Bool) (fc : Option Cond) (anc : List Group) (m0 : List (String × String))
+    (defs : List String) (Gt : Glob) (Lt : Loc) (Gf : Glob) (Lf : Loc) (toks : List String) (Gt' : Glob) (Lt' : Loc)
+    (R : Rel w frozen isTop fc anc m0 defs Gt Lt Gf Lf) (hfresh : w.fresh = false)
+    (hmol : w.molSec = true → isTop = true)
+    (h : doContent Gt Lt toks = .ok (Gt', Lt')) :
+    ∃ Gf' Lf', doContent Gf Lf toks = .ok (Gf', Lf') ∧ Rel w frozen isTop fc anc m0 defs Gt' Lt' Gf' Lf' := by
+  have hsec : Lt.sec = Lf.sec := R.s.secEq hfresh
+  unfold doContent at h ⊢
+  cases hh : handlerOf Lt.sec with
+  | none => simp [hh] at h
+  | some hd =>
+    have hhf : handlerOf Lf.sec = some hd := by rw [← hsec]; exact hh
+    simp only [hh] at h
+    simp only [hhf]
+    by_cases h1 : (hd == "_system" || hd == "_skip" || hd == "_macros") = true
+    · rw [if_pos h1] at h ⊢
+      injection h with h; injection h with hg hl; subst hg hl
+      exact ⟨Gf, Lf, rfl, R⟩
+    · rw [if_neg h1] at h ⊢
+      by_cases h2 : (hd == "_molecules") = true
+      · rw [if_pos h2] at h ⊢
+        have hd2 : hd = "_molecules" := by simpa using h2
+        have hsecm : Lt.sec = ["molecules"] := handlerOf_molecules _ (hd2 ▸ hh)
+        have htop : isTop = true := hmol (R.s.molSec.mpr hsecm)
+        match toks, h with
+        | [name, n], h =>
+          simp only at h ⊢
+          injection h with h; injection h with hg hl; subst hg hl
+          refine ⟨Gf, _, rfl, ⟨R.g, R.c, R.s, ?_⟩⟩
+          have I := R.i
+          exact { ownT := I.ownT, itpT := I.itpT, itpF := I.itpF, phaseF := I.phaseF, ownPhase := I.ownPhase,
+                  secMolOwn := I.secMolOwn,
+                  mols := (by simp [I.mols, List.append_assoc]),
+                  molsTop := (fun hf => by rw [htop] at hf; cases hf),
+                  perm := I.perm, alive := I.alive }
+      · rw [if_neg h2] at h ⊢
+        by_cases h3 : (hd == "_defaults") = true
+        · rw [if_pos h3] at h ⊢
+          cases hd3 : doDefaults toks with
+          | error e => simp [hd3, Except.map] at h
+          | ok d =>
+            simp only [hd3, Except.map] at h ⊢
+            injection h with h; injection h with hg hl; subst hg hl
+            refine ⟨_, Lf, rfl, ⟨?_, R.c, R.s, R.i⟩⟩
+            exact { tables := ⟨R.g.tables.defines, rfl, R.g.tables.atomTypes, R.g.tables.nonbond, R.g.tables.types⟩,
+                    defsOk := R.g.defsOk, gfEmpty := R.g.gfEmpty, gtMols := R.g.gtMols, names := R.g.names }
+        · rw [if_neg h3] at h ⊢
+          by_cases h4 : (hd == "_atomtypes") = true
+          · rw [if_pos h4] at h ⊢
+            cases hd4 : doAtomType toks with
+            | error e => simp [hd4, Except.map] at h
+            | ok r =>
+              obtain ⟨nm, row⟩ := r
+              simp only [hd4, Except.map] at h ⊢
+              injection h with h; injection h with hg hl; subst hg hl
+              refine ⟨_, Lf, rfl, ⟨?_, R.c, R.s, R.i⟩⟩
+              exact { tables := ⟨R.g.tables.defines, R.g.tables.defaults, (by simp [R.g.tables.atomTypes]),
+                                 R.g.tables.nonbond, R.g.tables.types⟩,
+                      defsOk := R.g.defsOk, gfEmpty := R.g.gfEmpty, gtMols := R.g.gtMols, names := R.g.names }
+          · rw [if_neg h4] at h ⊢
+            by_cases h5 : (hd == "_nonbond_params") = true
+            · rw [if_pos h5] at h ⊢
+              cases hd5 : doNonbond toks with
+              | error e => simp [hd5, Except.map] at h
+              | ok r =>
+                obtain ⟨k, v⟩ := r
+                simp only [hd5, Except.map] at h ⊢
+                injection h with h; injection h with hg hl; subst hg hl
+                refine ⟨_, Lf, rfl, ⟨?_, R.c, R.s, R.i⟩⟩
+                exact { tables := ⟨R.g.tables.defines, R.g.tables.defaults, R.g.tables.atomTypes,
+                                   (by simp [R.g.tables.nonbond]), R.g.tables.types⟩,
+                        defsOk := R.g.defsOk, gfEmpty := R.g.gfEmpty, gtMols := R.g.gtMols, names := R.g.names }
+            · rw [if_neg h5] at h ⊢
+              by_cases h6 : (hd == "_type_params") = true
+              · rw [if_pos h6] at h ⊢
+                cases hd6 : doType Gt Lt.cond (Lt.sec.getLast?.getD "") toks with
+                | error e => simp [hd6, Except.map] at h
+                | ok g1 =>
+                  simp only [hd6, Except.map] at h
+                  injection h with h; injection h with hg hl; subst hg hl
+                  obtain ⟨g2, hg2, herase, hsame1, hsame2⟩ :=
+                    doType_erase Gt Gf Lt.cond Lf.cond (Lt.sec.getLast?.getD "") toks g1 R.g.tables.types hd6
+                  refine ⟨g2, Lf, (by rw [← hsec]; simp [hg2, Except.map]), ⟨?_, ?_, R.s, ?_⟩⟩
+                  · rw [hsame1, hsame2]
+                    exact { tables := ⟨R.g.tables.defines, R.g.tables.defaults, R.g.tables.atomTypes,
+                                       R.g.tables.nonbond, herase⟩,
+                            defsOk := R.g.defsOk, gfEmpty := R.g.gfEmpty, gtMols := R.g.gtMols, names := R.g.names }
+                  · rw [hsame2]; exact R.c
+                  · rw [hsame1]; exact R.i
+              · rw [if_neg h6] at h ⊢
+                by_cases h7 : (hd == "_molecule") = true
+                · rw [if_pos h7] at h ⊢
+                  have hd7 : hd = "_molecule" := by simpa using h7
+                  have hshape := handlerOf_molecule _ R.s.shapeT (hd7 ▸ hh)
+                  have hsm : w.secMol = true := R.s.secMol.mpr hshape
+                  obtain ⟨hitp, hperm⟩ := R.i.alive hfresh hsm
+                  cases hit : Lt.itp with
+                  | none => simp [hit] at h
+                  | some grp =>
+                    simp only [hit] at h
+                    injection h with h; injection h with hg hl; subst hg hl
+                    have hitf : Lf.itp = some grp := by rw [← hitp, hit]
+                    refine ⟨Gf, { Lf with itp := some (grp ++ [ItpLine.toks toks]) }, (by simp [hitf]), ⟨R.g, R.c, R.s, ?_⟩⟩
+                    have I := R.i
+                    have hact : activeOf (some grp) = true := activeOf_well _ grp (hit ▸ I.itpT) rfl
+                    have hne : grp ++ [ItpLine.toks toks] ≠ [] := by simp
+                    exact { ownT := (by have := I.ownT; rw [hit, hact] at this; rw [this, activeOf_snoc]),
+                            itpT := Or.inr ⟨_, rfl, hne⟩, itpF := Or.inr ⟨_, rfl, hne⟩,
+                            phaseF := (by have := I.phaseF; rw [hitf, hact] at this; rw [this, activeOf_snoc]),
+                            ownPhase := I.ownPhase, secMolOwn := I.secMolOwn, mols := I.mols, molsTop := I.molsTop,
+                            perm := (by
+                              rw [openOf_some _ hne]
+                              have := hperm.append_right [sealGroup (grp ++ [ItpLine.toks toks])]
+                              simpa [List.map_append] using this),
+                            alive := (fun _ _ => ⟨rfl, hperm⟩) }
+                · rw [if_neg h7] at h
+                  cases h
+
+/-! ### headers -/
+
+theorem doHeader_mol (L : Loc) (hs : SecShape L.sec) (hw : WellItp L.itp) :
+    doHeader L "moleculetype" = { sec := ["moleculetype"], cond := L.cond, itp := some [ItpLine.hdr "moleculetype"],
+                                  itpLines := L.itpLines ++ openOf L.itp, mols := L.mols } := by
+  have hsec : newSection L.sec "moleculetype" = ["moleculetype"] := newSection_top _ _ hs moleculetype_not_sub
+  unfold doHeader
+  simp only [hsec, beq_self_eq_true, if_true]
+  rcases hw with hn | ⟨g, hg, hgne⟩
+  · simp [hn, openOf]
+  · cases g with
+    | nil => exact absurd rfl hgne
+    | cons a b => simp [hg, openOf]
+
+def appendHdr (it : Option Group) (name : String) : Option Group := it.map (· ++ [ItpLine.hdr name])
+
+theorem doHeader_other (L : Loc) (name : String) (sec' : List String) (hsec : newSection L.sec name = sec')
+    (hne : sec' ≠ ["moleculetype"]) :
+    doHeader L name = { sec := sec', cond := L.cond, itp := appendHdr L.itp name, itpLines := L.itpLines, mols := L.mols } := by
+  unfold doHeader
+  have : (sec' == ["moleculetype"]) = false := by simpa using hne
+  simp only [hsec, this, Bool.false_eq_true, if_false]
+  cases h : L.itp with
+  | none => simp [appendHdr]
+  | some g => simp [appendHdr]
+
+theorem wellItp_appendHdr (it : Option Group) (name : String) (h : WellItp it) : WellItp (appendHdr it name) := by
+  rcases h with hn | ⟨g, hg, _⟩
+  · left; simp [appendHdr, hn]
+  · right; exact ⟨g ++ [ItpLine.hdr name], by simp [appendHdr, hg], by simp⟩
+
+theorem activeOf_appendHdr (it : Option Group) (name : String) (h : WellItp it) :
+    activeOf (appendHdr it name) = activeOf it := by
+  rcases h with hn | ⟨g, hg, hgne⟩
+  · simp [appendHdr, hn]
+  · rw [hg]
+    have : activeOf (some g) = true := (activeOf_iff _).mpr ⟨g, rfl, hgne⟩
+    rw [this]
+    exact (activeOf_iff _).mpr ⟨_, rfl, by simp⟩
+
+/-- a top-level header appended to the open group does not change the sealed view -/
+theorem openOf_appendHdr_top (it : Option Group) (name : String) (h : WellItp it)
+    (hn : molSubsections.contains name = false) :
+    (openOf (appendHdr it name)).map sealGroup = (openOf it).map sealGroup := by
+  rcases h with hnone | ⟨g, hg, hgne⟩
+  · simp [appendHdr, hnone]
+  · rw [hg]
+    simp only [appendHdr, Option.map_some]
+    rw [openOf_some _ (by simp), openOf_some _ hgne]
+    simp [sealGroup_snoc_top g name hgne hn]
+
+theorem sim_header (w w' : WfSt) (frozen isTop : Bool) (fc : Option Cond) (anc : List Group) (m0 : List (String × String))
+    (defs : List String) (Gt : Glob) (Lt : Loc) (Gf : Glob) (Lf : Loc) (name : String)
+    (R : Rel w frozen isTop fc anc m0 defs Gt Lt Gf Lf)
+    (hw : (if name == "moleculetype" then
+            (if w.cond.isNone && !frozen && !w.swallow then
+              some { w with phase2 := true, fresh := false, own := true, secMol := true, molSec := false } else none)
+          else if molSubsections.contains name then (if !w.fresh && w.secMol then some w else none)
+          else (if w.swallow then none else some { w with fresh := false, secMol := false, molSec := name == "molecules" }))
+          = some w') :
+    Rel w' frozen isTop fc anc m0 defs Gt (doHeader Lt name) Gf (doHeader Lf name) := by
+  have I := R.i
+  have S := R.s
+  by_cases hm : (name == "moleculetype") = true
+  · -- a new moleculetype
+    have hname : name = "moleculetype" := by simpa using hm
+    subst hname
+    simp only [beq_self_eq_true, if_true] at hw
+    split at hw
+    · rename_i hc
+      injection hw with hw; subst hw
+      simp only [Bool.and_eq_true, Bool.not_eq_true', Option.isNone_iff_eq_none] at hc
+      obtain ⟨⟨hcond, hfr⟩, _⟩ := hc
+      rw [doHeader_mol Lt S.shapeT I.itpT, doHeader_mol Lf S.shapeF I.itpF]
+      refine ⟨R.g, ?_, ?_, ?_⟩
+      · exact { condT := R.c.condT, condF := (by have := R.c.condF; simpa [hfr] using this),
+                condPhase := fun _ => hcond }
+      · exact { shapeT := SecShape.one _, shapeF := SecShape.one _, secEq := fun _ => rfl,
+                secMol := ⟨fun _ => Or.inl rfl, fun _ => rfl⟩,
+                molSec := ⟨fun h => (by cases h), fun h => (by simp at h)⟩ }
+      · exact { ownT := rfl, itpT := Or.inr ⟨_, rfl, by simp⟩, itpF := Or.inr ⟨_, rfl, by simp⟩, phaseF := rfl,
+                ownPhase := fun _ => rfl, secMolOwn := fun _ => rfl, mols := I.mols, molsTop := I.molsTop,
+                perm := (by
+                  have := I.perm.append_right [sealGroup [ItpLine.hdr "moleculetype"]]
+                  simpa [List.map_append, openOf, List.append_assoc] using this),
+                alive := (fun _ _ => ⟨rfl, by simpa [List.append_assoc] using I.perm⟩) }
+    · cases hw
+  · have hname : name ≠ "moleculetype" := by simpa using hm
+    have hm' : (name == "moleculetype") = false := by simpa using hm
+    simp only [hm', Bool.false_eq_true, if_false] at hw
+    by_cases hsub : molSubsections.contains name = true
+    · -- a subsection of the current moleculetype
+      simp only [hsub, if_true] at hw
+      split at hw
+      · rename_i hc
+        injection hw with hw; subst hw
+        simp only [Bool.and_eq_true, Bool.not_eq_true'] at hc
+        obtain ⟨hfresh, hsm⟩ := hc
+        have hshape := S.secMol.mp hsm
+        have hsecT : newSection Lt.sec name = ["moleculetype", name] := newSection_sub _ _ hsub hshape
+        have hsecF : newSection Lf.sec name = ["moleculetype", name] := by
+          rw [← S.secEq hfresh]; exact hsecT
+        have hne : ["moleculetype", name] ≠ ["moleculetype"] := by simp
+        rw [doHeader_other Lt name _ hsecT hne, doHeader_other Lf name _ hsecF hne]
+        obtain ⟨hitp, hperm⟩ := I.alive hfresh hsm
+        refine ⟨R.g, ⟨R.c.condT, R.c.condF, R.c.condPhase⟩, ?_, ?_⟩
+        · exact { shapeT := SecShape.mol _, shapeF := SecShape.mol _, secEq := fun _ => rfl,
+                  secMol := ⟨fun _ => Or.inr ⟨name, rfl⟩, fun _ => hsm⟩,
+                  molSec := ⟨fun h => (by
+                               have := S.molSec.mp h
+                               rcases hshape with h1 | ⟨y, h1⟩ <;> rw [h1] at this <;> simp at this),
+                             fun h => (by simp at h)⟩ }
+        · exact { ownT := (by rw [activeOf_appendHdr _ _ I.itpT]; exact I.ownT),
+                  itpT := wellItp_appendHdr _ _ I.itpT, itpF := wellItp_appendHdr _ _ I.itpF,
+                  phaseF := (by rw [activeOf_appendHdr _ _ I.itpF]; exact I.phaseF),
+                  ownPhase := I.ownPhase, secMolOwn := I.secMolOwn, mols := I.mols, molsTop := I.molsTop,
+                  perm := (by
+                    rw [← hitp]
+                    have := hperm.append_right ((openOf (appendHdr Lt.itp name)).map sealGroup)
+                    simpa [List.map_append] using this),
+                  alive := (fun _ _ => ⟨by rw [hitp], hperm⟩) }
+      · cases hw
+    · -- a top-level (or unknown) section
+      have hsub' : molSubsections.contains name = false := by simpa using hsub
+      simp only [hsub', Bool.false_eq_true, if_false] at hw
+      split at hw
+      · cases hw
+      · injection hw with hw; subst hw
+        have hsecT : newSection Lt.sec name = [name] := newSection_top _ _ S.shapeT hsub'
+        have hsecF : newSection Lf.sec name = [name] := newSection_top _ _ S.shapeF hsub'
+        have hne : [name] ≠ ["moleculetype"] := by simpa using hname
+        rw [doHeader_other Lt name _ hsecT hne, doHeader_other Lf name _ hsecF hne]
+        refine ⟨R.g, ⟨R.c.condT, R.c.condF, R.c.condPhase⟩, ?_, ?_⟩
+        · exact { shapeT := SecShape.one _, shapeF := SecShape.one _, secEq := fun _ => rfl,
+                  secMol := ⟨fun h => (by cases h), fun h => (by
+                    rcases h with h | ⟨y, h⟩
+                    · simp at h; exact absurd h hname
+                    · simp at h)⟩,
+                  molSec := ⟨fun h => (by simpa using h), fun h => (by simpa using h)⟩ }
+        · exact { ownT := (by rw [activeOf_appendHdr _ _ I.itpT]; exact I.ownT),
+                  itpT := wellItp_appendHdr _ _ I.itpT, itpF := wellItp_appendHdr _ _ I.itpF,
+                  phaseF := (by rw [activeOf_appendHdr _ _ I.itpF]; exact I.phaseF),
+                  ownPhase := I.ownPhase, secMolOwn := (fun h => (by cases h)), mols := I.mols, molsTop := I.molsTop,
+                  perm := (by
+                    simp only [List.map_append]
+                    rw [openOf_appendHdr_top _ _ I.itpT hsub', openOf_appendHdr_top _ _ I.itpF hsub']
+                    simpa [List.map_append] using I.perm),
+                  alive := (fun _ h => (by cases h)) }
+
+/-! ### pragmas that do not include -/
+
+/-- `Rel` looks at the scan state only through six of its fields -/
+theorem rel_w (w w' : WfSt) (frozen isTop : Bool) (fc : Option Cond) (anc : List Group) (m0 : List (String × String))
+    (defs : List String) (Gt : Glob) (Lt : Loc) (Gf : Glob) (Lf : Loc)
+    (h1 : w'.phase2 = w.phase2) (h2 : w'.fresh = w.fresh) (h3 : w'.own = w.own) (h4 : w'.secMol = w.secMol)
+    (h5 : w'.cond = w.cond) (h6 : w'.molSec = w.molSec)
+    (R : Rel w frozen isTop fc anc m0 defs Gt Lt Gf Lf) : Rel w' frozen isTop fc anc m0 defs Gt Lt Gf Lf := by
+  obtain ⟨p, f, o, sm, c, sw, ms⟩ := w
+  obtain ⟨p', f', o', sm', c', sw', ms'⟩ := w'
+  simp only at h1 h2 h3 h4 h5 h6
+  subst h1 h2 h3 h4 h5 h6
+  exact ⟨R.g, ⟨R.c.condT, R.c.condF, R.c.condPhase⟩,
+    ⟨R.s.shapeT, R.s.shapeF, R.s.secEq, R.s.secMol, R.s.molSec⟩,
+    ⟨R.i.ownT, R.i.itpT, R.i.itpF, R.i.phaseF, R.i.ownPhase, R.i.secMolOwn, R.i.mols, R.i.molsTop, R.i.perm, R.i.alive⟩⟩
+
+/-- a line stored into the open moleculetype of both directors (inside a moleculetype section of the file) -/
+theorem rel_swallow (w : WfSt) (frozen isTop : Bool) (fc : Option Cond) (anc : List Group) (m0 : List (String × String))
+    (defs : List String) (Gt : Glob) (Lt : Loc) (Gf : Glob) (Lf : Loc) (x : ItpLine)
+    (R : Rel w frozen isTop fc anc m0 defs Gt Lt Gf Lf) (hfresh : w.fresh = false) (hsm : w.secMol = true) :
+    itpActive Lt = true ∧ itpActive Lf = true ∧
+    Rel w frozen isTop fc anc m0 defs Gt { Lt with itp := some (Lt.itp.getD [] ++ [x]) }
+                                     Gf { Lf with itp := some (Lf.itp.getD [] ++ [x]) } := by
+  have I := R.i
+  obtain ⟨hitp, hperm⟩ := I.alive hfresh hsm
+  have hown : w.own = true := I.secMolOwn hsm
+  have hactT : activeOf Lt.itp = true := by rw [← I.ownT]; exact hown
+  have hactF : activeOf Lf.itp = true := by rw [← hitp]; exact hactT
+  obtain ⟨g, hg, hgne⟩ := (activeOf_iff _).mp hactT
+  have hgf : Lf.itp = some g := by rw [← hitp]; exact hg
+  refine ⟨by rw [itpActive_eq]; exact hactT, by rw [itpActive_eq]; exact hactF, R.g, R.c, R.s, ?_⟩
+  have hne : g ++ [x] ≠ [] := by simp
+  simp only [hg, hgf, Option.getD_some]
+  exact { ownT := (by rw [hown, activeOf_snoc]),
+          itpT := Or.inr ⟨_, rfl, hne⟩, itpF := Or.inr ⟨_, rfl, hne⟩,
+          phaseF := (by rw [I.ownPhase hown, activeOf_snoc]),
+          ownPhase := I.ownPhase, secMolOwn := I.secMolOwn, mols := I.mols, molsTop := I.molsTop,
+          perm := (by
+            rw [openOf_some _ hne]
+            have := hperm.append_right [sealGroup (g ++ [x])]
+            simpa [List.map_append] using this),
+          alive := (fun _ _ => ⟨rfl, hperm⟩) }
+
+theorem switchedOff_congr (g1 g2 : Glob) (c : Option Cond) (h : g1.defines = g2.defines) :
+    switchedOff g1 c = switchedOff g2 c := by
+  rw [switchedOff_defines g1, switchedOff_defines g2, h]
+
+theorem holds_eq (defs : List String) (g : Glob) (wc : Option (Bool × String))
+    (hd : ∀ tag, defs.contains tag = (assocGet g.defines tag).isSome) :
+    holds defs wc = !switchedOff g (condOf wc) := by
+  cases wc with
+  | none => rfl
+  | some p =>
+    obtain ⟨b, t⟩ := p
+    have := hd t
+    cases b
+    · simp [holds, condOf, switchedOff, ← this]
+    · simp [holds, condOf, switchedOff, ← this]
+
+theorem not_frozen_of_cond (w : WfSt) (frozen : Bool) (fc : Option Cond) (d : List (String × Option (List String)))
+    (ct cf : Option Cond) (C : RelC w frozen fc d ct cf) (h : w.cond.isSome = true) : frozen = false := by
+  cases frozen with
+  | false => rfl
+  | true =>
+    have := C.condF
+    simp only [if_true] at this
+    rw [this.2.2.2] at h
+    cases h
+
+/-- the three conditional pragmas when both directors store them (inside a moleculetype of the file) -/
+theorem sim_cond_stored (w w' : WfSt) (frozen isTop : Bool) (fc : Option Cond) (anc : List Group)
+    (m0 : List (String × String)) (defs : List String) (Gt : Glob) (Lt : Loc) (Gf : Glob) (Lf : Loc) (Gt' : Glob) (Lt' : Loc)
+    (toks : List String)
+    (R : Rel w frozen isTop fc anc m0 defs Gt Lt Gf Lf)
+    (hin : (!w.fresh && w.own && w.secMol) = true)
+    (h1 : w'.phase2 = w.phase2) (h2 : w'.fresh = w.fresh) (h3 : w'.own = w.own) (h4 : w'.secMol = w.secMol)
+    (h5 : w'.cond = w.cond) (h6 : w'.molSec = w.molSec)
+    (ht : (if itpActive Lt = true then
+             (Except.ok (Gt, { Lt with itp := some ((Lt.itp.getD []) ++ [ItpLine.toks toks]) }) : Except String (Glob × Loc))
+           else Except.error "x") = .ok (Gt', Lt')) :
+    itpActive Lf = true ∧
+      Rel w' frozen isTop fc anc m0 defs Gt' Lt' Gf { Lf with itp := some ((Lf.itp.getD []) ++ [ItpLine.toks toks]) } := by
+  simp only [Bool.and_eq_true, Bool.not_eq_true'] at hin
+  obtain ⟨⟨hfresh, _⟩, hsm⟩ := hin
+  obtain ⟨aT, aF, R'⟩ := rel_swallow w frozen isTop fc anc m0 defs Gt Lt Gf Lf (ItpLine.toks toks) R hfresh hsm
+  rw [if_pos aT] at ht
+  injection ht with ht; injection ht with hg hl; subst hg hl
+  exact ⟨aF, rel_w _ _ _ _ _ _ _ _ _ _ _ _ h1 h2 h3 h4 h5 h6 R'⟩
+
+/-- rebuild `Rel` for a scan state that differs in `cond` / `swallow` only, given the new conditional part -/
+theorem rel_change_c (w w' : WfSt) (frozen isTop : Bool) (fc : Option Cond) (anc : List Group) (m0 : List (String × String))
+    (defs : List String) (Gt : Glob) (Lt Lt' : Loc) (Gf : Glob) (Lf Lf' : Loc)
+    (h1 : w'.phase2 = w.phase2) (h2 : w'.fresh = w.fresh) (h3 : w'.own = w.own) (h4 : w'.secMol = w.secMol)
+    (h6 : w'.molSec = w.molSec)
+    (hLt : Lt'.sec = Lt.sec ∧ Lt'.itp = Lt.itp ∧ Lt'.itpLines = Lt.itpLines ∧ Lt'.mols = Lt.mols)
+    (hLf : Lf'.sec = Lf.sec ∧ Lf'.itp = Lf.itp ∧ Lf'.itpLines = Lf.itpLines ∧ Lf'.mols = Lf.mols)
+    (R : Rel w frozen isTop fc anc m0 defs Gt Lt Gf Lf)
+    (C : RelC w' frozen fc Gf.defines Lt'.cond Lf'.cond) : Rel w' frozen isTop fc anc m0 defs Gt Lt' Gf Lf' := by
+  obtain ⟨p, f, o, sm, c, sw, ms⟩ := w
+  obtain ⟨p', f', o', sm', c', sw', ms'⟩ := w'
+  simp only at h1 h2 h3 h4 h6
+  subst h1 h2 h3 h4 h6
+  obtain ⟨a1, a2, a3, a4⟩ := hLt
+  obtain ⟨b1, b2, b3, b4⟩ := hLf
+  refine ⟨R.g, C, ?_, ?_⟩
+  · rw [a1, b1]
+    exact ⟨R.s.shapeT, R.s.shapeF, R.s.secEq, R.s.secMol, R.s.molSec⟩
+  · rw [a2, a3, a4, b2, b3, b4]
+    exact ⟨R.i.ownT, R.i.itpT, R.i.itpF, R.i.phaseF, R.i.ownPhase, R.i.secMolOwn, R.i.mols, R.i.molsTop, R.i.perm, R.i.alive⟩
+
+theorem condOf_isSome (c : Option (Bool × String)) : (condOf c).isSome = c.isSome := by
+  cases c with
+  | none => rfl
+  | some p => obtain ⟨b, t⟩ := p; cases b <;> rfl
+
+theorem sim_pragma_noinc (w w' : WfSt) (frozen isTop : Bool) (fc : Option Cond) (anc : List Group)
+    (m0 : List (String × String)) (Gt : Glob) (Lt : Loc) (Gf : Glob) (Lf : Loc) (Gt' : Glob) (Lt' : Loc)
+    (incW : Path → Bool → Bool → Option Bool) (incT : Path → Glob → Except String Glob)
+    (incF : Path → FlatSt → Except String FlatSt) (dir : Path) (c c' : Option (Bool × String)) (fst fst' : FlatSt)
+    (raw : String) (toks : List String)
+    (hni : (toks.headD "" == "#include") = false)
+    (R : Rel w frozen isTop fc anc m0 fst.defs Gt Lt Gf Lf) (hc : w.swallow = false → c = w.cond)
+    (hw : wfPragma incW dir frozen w toks = some w')
+    (ht : doPragma incT dir Gt Lt toks = .ok (Gt', Lt'))
+    (hf : flatPragma incF dir c fst raw toks = .ok (c', fst')) :
+    fst'.out = fst.out ++ [raw] ∧ (w'.swallow = false → c' = w'.cond) ∧
+      ∃ Gf' Lf', doPragma noInc [] Gf Lf toks = .ok (Gf', Lf') ∧
+        Rel w' frozen isTop fc anc m0 fst'.defs Gt' Lt' Gf' Lf' := by
+  have I := R.i
+  have hactT : itpActive Lt = w.own := by rw [itpActive_eq, ← I.ownT]
+  have hactF : itpActive Lf = w.phase2 := by rw [itpActive_eq, ← I.phaseF]
+  have hown1 : ¬ w.phase2 = true → w.own = false := by
+    intro hp
+    cases ho : w.own with
+    | false => rfl
+    | true => exact absurd (I.ownPhase ho) hp
+  have hinOwn : (!w.fresh && w.own && w.secMol) = true → itpActive Lt = true := by
+    intro hin
+    simp only [Bool.and_eq_true] at hin
+    rw [hactT]; exact hin.1.2
+  unfold wfPragma at hw
+  unfold doPragma at ht ⊢
+  unfold flatPragma at hf
+  simp only at hw ht hf ⊢
+  by_cases c1 : (toks == ["#endif"]) = true
+  · -- #endif
+    rw [if_pos c1] at hw ht hf ⊢
+    injection hf with hf; injection hf with hc' hfst; subst hc' hfst
+    refine ⟨rfl, ?_⟩
+    by_cases hp : w.phase2 = true
+    · rw [if_pos hp] at hw
+      split at hw
+      · rename_i hin
+        injection hw with hw; subst hw
+        obtain ⟨aF, R'⟩ := sim_cond_stored w { w with swallow := false } frozen isTop fc anc m0 _ Gt Lt Gf Lf Gt' Lt' toks R hin
+          rfl rfl rfl rfl rfl rfl (by rw [if_pos (hinOwn hin)] at ht ⊢; exact ht)
+        rw [if_pos aF]
+        exact ⟨fun _ => (R.c.condPhase hp).symm, _, _, rfl, R'⟩
+      · cases hw
+    · rw [if_neg hp] at hw
+      split at hw
+      · rename_i hcs
+        injection hw with hw; subst hw
+        have hfz := not_frozen_of_cond w frozen fc _ _ _ R.c hcs
+        have hcF := R.c.condF
+        simp only [hfz, Bool.false_eq_true, if_false] at hcF
+        have hTs : Lt.cond.isNone = false := by
+          rw [R.c.condT]
+          have := condOf_isSome w.cond
+          rw [hcs] at this
+          cases hcc : condOf w.cond with
+          | none => rw [hcc] at this; cases this
+          | some m => rfl
+        have hTa : ¬ itpActive Lt = true := by rw [hactT, hown1 hp]; simp
+        have hFa : ¬ itpActive Lf = true := by rw [hactF]; exact hp
+        rw [if_neg hTa] at ht
+        rw [if_neg hFa]
+        simp only [hTs, Bool.false_eq_true, if_false] at ht
+        injection ht with ht; injection ht with hg hl; subst hg hl
+        refine ⟨fun _ => rfl, Gf, { Lf with cond := none }, (by simp [hcF, hTs]), ?_⟩
+        refine rel_change_c w _ frozen isTop fc anc m0 _ Gt Lt _ Gf Lf _ rfl rfl rfl rfl rfl
+          ⟨rfl, rfl, rfl, rfl⟩ ⟨rfl, rfl, rfl, rfl⟩ R ?_
+        exact { condT := rfl, condF := (by simp [hfz]), condPhase := fun _ => rfl }
+      · cases hw
+  · rw [if_neg c1] at hw ht hf ⊢
+    by_cases c2 : startsWith (toks.headD "") "#else" = true
+    · -- #else
+      rw [if_pos c2] at hw ht hf ⊢
+      injection hf with hf; injection hf with hc' hfst; subst hc' hfst
+      refine ⟨rfl, ?_⟩
+      split at hw
+      · cases hw
+      · by_cases hp : w.phase2 = true
+        · rw [if_pos hp] at hw
+          split at hw
+          · rename_i hin
+            injection hw with hw; subst hw
+            obtain ⟨aF, R'⟩ := sim_cond_stored w w frozen isTop fc anc m0 _ Gt Lt Gf Lf Gt' Lt' toks R hin
+              rfl rfl rfl rfl rfl rfl (by rw [if_pos (hinOwn hin)] at ht ⊢; exact ht)
+            rw [if_pos aF]
+            refine ⟨fun hs => ?_, _, _, rfl, R'⟩
+            rw [hc hs, R.c.condPhase hp]; rfl
+          · cases hw
+        · rw [if_neg hp] at hw
+          have hTa : ¬ itpActive Lt = true := by rw [hactT, hown1 hp]; simp
+          have hFa : ¬ itpActive Lf = true := by rw [hactF]; exact hp
+          rw [if_neg hTa] at ht
+          rw [if_neg hFa]
+          cases hcw : w.cond with
+          | none => simp [hcw] at hw
+          | some bt =>
+            obtain ⟨b, t⟩ := bt
+            simp only [hcw] at hw
+            injection hw with hw; subst hw
+            have hfz := not_frozen_of_cond w frozen fc _ _ _ R.c (by simp [hcw])
+            have hcF := R.c.condF
+            simp only [hfz, Bool.false_eq_true, if_false] at hcF
+            have hcT := R.c.condT
+            rw [hcw] at hcT
+            rw [hcF]
+            cases b with
+            | false =>
+              have e : Lt.cond = some ⟨"ifndef", t⟩ := hcT
+              rw [e] at ht ⊢
+              simp only [inverseCond, show ("ifndef" == "ifdef") = false by decide, Bool.false_eq_true, if_false,
+                show ("ifndef" == "ifndef") = true by decide, if_true] at ht ⊢
+              injection ht with ht; injection ht with hg hl; subst hg hl
+              refine ⟨fun hs => (by rw [hc hs, hcw]; rfl), _, _, rfl, ?_⟩
+              refine rel_change_c w _ frozen isTop fc anc m0 _ Gt Lt _ Gf Lf _ rfl rfl rfl rfl rfl
+                ⟨rfl, rfl, rfl, rfl⟩ ⟨rfl, rfl, rfl, rfl⟩ R ?_
+              exact { condT := rfl, condF := (by simp [hfz]), condPhase := (fun h => absurd h hp) }
+            | true =>
+              have e : Lt.cond = some ⟨"ifdef", t⟩ := hcT
+              rw [e] at ht ⊢
+              simp only [inverseCond, show ("ifdef" == "ifdef") = true by decide, if_true] at ht ⊢
+              injection ht with ht; injection ht with hg hl; subst hg hl
+              refine ⟨fun hs => (by rw [hc hs, hcw]; rfl), _, _, rfl, ?_⟩
+              refine rel_change_c w _ frozen isTop fc anc m0 _ Gt Lt _ Gf Lf _ rfl rfl rfl rfl rfl
+                ⟨rfl, rfl, rfl, rfl⟩ ⟨rfl, rfl, rfl, rfl⟩ R ?_
+              exact { condT := rfl, condF := (by simp [hfz]), condPhase := (fun h => absurd h hp) }
+    · rw [if_neg c2] at hw ht hf ⊢
+      by_cases c3 : (startsWith (toks.headD "") "#ifdef" || startsWith (toks.headD "") "#ifndef") = true
+      · -- #ifdef / #ifndef
+        rw [if_pos c3] at hw ht hf ⊢
+        match toks, hw, ht, hf with
+        | [k, tag], hw, ht, hf =>
+          simp only at hw ht hf ⊢
+          injection hf with hf; injection hf with hc' hfst; subst hc' hfst
+          refine ⟨rfl, ?_⟩
+          split at hw
+          · cases hw
+          · rename_i hk
+            have hk' : k = "#ifdef" ∨ k = "#ifndef" := by
+              simp only [Bool.and_eq_true, bne_iff_ne, ne_eq, not_and, Decidable.not_not] at hk
+              by_cases h1 : k = "#ifdef"
+              · exact Or.inl h1
+              · exact Or.inr (hk h1)
+            by_cases hp : w.phase2 = true
+            · rw [if_pos hp] at hw
+              split at hw
+              · rename_i hin
+                injection hw with hw; subst hw
+                obtain ⟨aF, R'⟩ := sim_cond_stored w { w with swallow := true } frozen isTop fc anc m0 _ Gt Lt Gf Lf Gt' Lt'
+                  [k, tag] R hin rfl rfl rfl rfl rfl rfl (by rw [if_pos (hinOwn hin)] at ht ⊢; exact ht)
+                rw [if_pos aF]
+                exact ⟨fun hs => (by cases hs), _, _, rfl, R'⟩
+              · cases hw
+            · rw [if_neg hp] at hw
+              split at hw
+              · rename_i hcn
+                injection hw with hw; subst hw
+                simp only [Bool.and_eq_true, Option.isNone_iff_eq_none, Bool.not_eq_true'] at hcn
+                obtain ⟨hcw, hfz⟩ := hcn
+                have hcF := R.c.condF
+                simp only [hfz, Bool.false_eq_true, if_false] at hcF
+                have hcT : Lt.cond = none := by rw [R.c.condT, hcw]; rfl
+                have hTa : ¬ itpActive Lt = true := by rw [hactT, hown1 hp]; simp
+                have hFa : ¬ itpActive Lf = true := by rw [hactF]; exact hp
+                rw [if_neg hTa] at ht
+                rw [if_neg hFa, hcF]
+                rw [hcT] at ht ⊢
+                dsimp only at ht ⊢
+                injection ht with ht; injection ht with hg hl; subst hg hl
+                refine ⟨fun _ => rfl, _, _, rfl, ?_⟩
+                refine rel_change_c w _ frozen isTop fc anc m0 _ Gt Lt _ Gf Lf _ rfl rfl rfl rfl rfl
+                  ⟨rfl, rfl, rfl, rfl⟩ ⟨rfl, rfl, rfl, rfl⟩ R ?_
+                refine { condT := ?_, condF := (by simp [hfz]), condPhase := (fun h => absurd h hp) }
+                rcases hk' with rfl | rfl
+                · show some (⟨removeChar "#ifdef" '#', tag⟩ : Cond) = condOf (some (("#ifdef" == "#ifdef"), tag))
+                  have e1 : removeChar "#ifdef" '#' = "ifdef" := by decide
+                  have e2 : ("#ifdef" == "#ifdef") = true := by decide
+                  rw [e1, e2]; rfl
+                · show some (⟨removeChar "#ifndef" '#', tag⟩ : Cond) = condOf (some (("#ifndef" == "#ifdef"), tag))
+                  have e1 : removeChar "#ifndef" '#' = "ifndef" := by decide
+                  have e2 : ("#ifndef" == "#ifdef") = false := by decide
+                  rw [e1, e2]; rfl
+              · cases hw
+        | [], hw, _, _ => simp at hw
+        | [_], hw, _, _ => simp at hw
+        | _ :: _ :: _ :: _, hw, _, _ => simp at hw
+      · rw [if_neg c3] at hw ht hf ⊢
+        by_cases c4 : (toks.headD "" == "#define") = true
+        · -- #define
+          rw [if_pos c4] at hw ht hf ⊢
+          split at hw
+          · rename_i hcd
+            injection hw with hw; subst hw
+            simp only [Bool.and_eq_true, decide_eq_true_eq, Option.isNone_iff_eq_none, Bool.not_eq_true'] at hcd
+            obtain ⟨⟨⟨hlen, hcw⟩, hfz⟩, hsw⟩ := hcd
+            have hcc : c = none := by rw [hc hsw, hcw]
+            have hcF := R.c.condF
+            simp only [hfz, Bool.false_eq_true, if_false] at hcF
+            have hdefs := R.g.tables.defines
+            -- the new macro table, and the flattener's set
+            have key : ∀ (tag : String) (v : Option (List String)) (Gt1 Gf1 : Glob) (defs1 : List String),
+                Gt1 = { Gt with defines := assocSet Gt.defines tag v } →
+                Gf1 = { Gf with defines := assocSet Gf.defines tag v } →
+                defs1 = (if fst.defs.contains tag then fst.defs else fst.defs ++ [tag]) →
+                Rel w frozen isTop fc anc m0 defs1 Gt1 Lt Gf1 Lf := by
+              intro tag v Gt1 Gf1 defs1 e1 e2 e3
+              subst e1 e2 e3
+              refine ⟨?_, ?_, R.s, R.i⟩
+              · refine { tables := ⟨by simp [hdefs], R.g.tables.defaults, R.g.tables.atomTypes, R.g.tables.nonbond,
+                                     R.g.tables.types⟩,
+                         defsOk := ?_, gfEmpty := R.g.gfEmpty, gtMols := R.g.gtMols, names := R.g.names }
+                intro t
+                simp only
+                rw [assocGet_assocSet]
+                have hold := R.g.defsOk t
+                by_cases ht' : t = tag
+                · subst ht'
+                  simp only [if_true, Option.isSome_some]
+                  split
+                  · assumption
+                  · simp
+                · simp only [ht', if_false]
+                  split
+                  · exact hold
+                  · rw [← hold]; simp [ht']
+              · exact { condT := R.c.condT, condF := (by simp [hfz, hcF]), condPhase := R.c.condPhase }
+            match toks, hlen, ht, hf with
+            | [_, tag], _, ht, hf =>
+              simp only [hcc, Option.isNone_none, if_true] at ht hf ⊢
+              injection hf with hf; injection hf with hc' hfst; subst hc' hfst
+              injection ht with ht; injection ht with hg hl; subst hg hl
+              exact ⟨rfl, fun hs => (by rw [hcw]), _, _, rfl, key tag none _ _ _ rfl rfl rfl⟩
+            | _ :: tag :: v :: vals, _, ht, hf =>
+              simp only [hcc, Option.isNone_none, if_true] at ht hf ⊢
+              injection hf with hf; injection hf with hc' hfst; subst hc' hfst
+              injection ht with ht; injection ht with hg hl; subst hg hl
+              exact ⟨rfl, fun hs => (by rw [hcw]), _, _, rfl, key tag (some (v :: vals)) _ _ _ rfl rfl rfl⟩
+          · cases hw
+        · rw [if_neg c4] at hw ht hf ⊢
+          by_cases c5 : (toks.headD "" == "#error") = true
+          · -- #error
+            rw [if_pos c5] at hw ht hf ⊢
+            split at hw
+            · cases hw
+            · rename_i hsw
+              injection hw with hw; subst hw
+              have hsw' : w.swallow = false := by simpa using hsw
+              split at ht
+              · rename_i hoff
+                injection ht with ht; injection ht with hg hl; subst hg hl
+                injection hf with hf; injection hf with hc' hfst; subst hc'
+                have hout : fst'.out = fst.out ++ [raw] := by rw [← hfst]; split <;> rfl
+                have hdf : fst'.defs = fst.defs := by rw [← hfst]; split <;> rfl
+                refine ⟨hout, fun hs => hc hs, Gf, Lf, ?_, by rw [hdf]; exact R⟩
+                -- the flat director skips the #error as well
+                cases hfz : frozen with
+                | false =>
+                  have hcF := R.c.condF
+                  simp only [hfz, Bool.false_eq_true, if_false] at hcF
+                  rw [hcF, switchedOff_congr Gf Gt _ R.g.tables.defines.symm, hoff]
+                  rfl
+                | true =>
+                  -- a frozen file has no conditional of its own: the tree would have raised
+                  exfalso
+                  have hcF := R.c.condF
+                  simp only [hfz, if_true] at hcF
+                  have : Lt.cond = none := by rw [R.c.condT, hcF.2.2.2]; rfl
+                  rw [this] at hoff
+                  simp [switchedOff] at hoff
+              · cases ht
+          · -- #include is excluded here, anything else is not well formed
+            rw [if_neg c5] at hw
+            rw [hni] at hw
+            simp at hw
+
+/-! ### finalize -/
+
+theorem readGroups_spec (grps : List Group) (g g' : Glob) (h : readGroups g grps = .ok g') :
+    g'.groups = g.groups ++ grps ∧ g'.defines = g.defines ∧ g'.defaults = g.defaults ∧ g'.atomTypes = g.atomTypes ∧
+    g'.nonbond = g.nonbond ∧ g'.types = g.types ∧ g'.molecules = g.molecules ∧ g'.molIdx = g.molIdx ∧
+    (∀ grp ∈ grps, ∃ n, groupName grp = .ok n) ∧
+    (NamesOk g.groups g.blockNames → NamesOk g'.groups g'.blockNames) := by
+  induction grps generalizing g with
+  | nil =>
+    simp [readGroups] at h; subst h
+    exact ⟨by simp, rfl, rfl, rfl, rfl, rfl, rfl, rfl, by simp, id⟩
+  | cons grp rest ih =>
+    unfold readGroups at h
+    cases hn : groupName grp with
+    | error e => simp [hn] at h
+    | ok nm =>
+      simp only [hn] at h
+      obtain ⟨h1, h2, h3, h4, h5, h6, h7, h8, h9, h10⟩ := ih _ h
+      refine ⟨by simp [h1], h2, h3, h4, h5, h6, h7, h8, ?_, ?_⟩
+      · intro x hx
+        rcases List.mem_cons.mp hx with rfl | hx
+        · exact ⟨nm, hn⟩
+        · exact h9 x hx
+      · intro N
+        apply h10
+        constructor
+        · intro x hx
+          simp only at hx
+          rcases List.mem_append.mp hx with hx | hx
+          · exact N.good x hx
+          · simp at hx; subst hx; exact ⟨nm, hn⟩
+        · intro n
+          simp only
+          constructor
+          · intro hc
+            by_cases hcn : g.blockNames.contains nm = true
+            · simp only [hcn, if_true] at hc
+              obtain ⟨x, hx, hxn⟩ := (N.set n).mp hc
+              exact ⟨x, List.mem_append_left _ hx, hxn⟩
+            · simp only [hcn] at hc
+              simp only [Bool.false_eq_true, if_false, List.contains_append, Bool.or_eq_true] at hc
+              rcases hc with hc | hc
+              · obtain ⟨x, hx, hxn⟩ := (N.set n).mp hc
+                exact ⟨x, List.mem_append_left _ hx, hxn⟩
+              · have : n = nm := by simpa using hc
+                subst this
+                exact ⟨grp, by simp, hn⟩
+          · rintro ⟨x, hx, hxn⟩
+            rcases List.mem_append.mp hx with hx | hx
+            · have := (N.set n).mpr ⟨x, hx, hxn⟩
+              by_cases hcn : g.blockNames.contains nm = true
+              · simp only [hcn, if_true]; exact this
+              · simp only [hcn, Bool.false_eq_true, if_false, List.contains_append, Bool.or_eq_true]; exact Or.inl this
+            · simp at hx; subst hx
+              rw [hn] at hxn
+              injection hxn with hxn
+              subst hxn
+              by_cases hcn : g.blockNames.contains nm = true
+              · simp only [hcn, if_true]
+              · simp only [hcn, Bool.false_eq_true, if_false, List.contains_append, Bool.or_eq_true]
+                right; simp
+
+/-- the groups a director hands to `read_itp` at the end -/
+theorem finalize_groups (l : Loc) (hw : WellItp l.itp) :
+    (if itpActive l then l.itpLines ++ [l.itp.getD []] else l.itpLines) = l.itpLines ++ openOf l.itp := by
+  rcases hw with hn | ⟨g, hg, hgne⟩
+  · simp [itpActive, hn, openOf]
+  · cases g with
+    | nil => exact absurd rfl hgne
+    | cons a b => simp [itpActive, hg, openOf]
+
+/-- `finalize` of a director that collected no `[molecules]` lines -/
+theorem finalize_child (g g' : Glob) (l : Loc) (hw : WellItp l.itp) (hm : l.mols = []) (h : finalize g l = .ok g') :
+    l.cond = none ∧ readGroups g (l.itpLines ++ openOf l.itp) = .ok g' := by
+  unfold finalize at h
+  rw [finalize_groups l hw] at h
+  cases hc : l.cond with
+  | some m => simp [hc] at h
+  | none =>
+    simp only [hc, Option.isSome_none, Bool.false_eq_true, if_false] at h
+    cases hr : readGroups g (l.itpLines ++ openOf l.itp) with
+    | error e => simp [hr] at h
+    | ok g1 =>
+      simp only [hr, hm, expandMols] at h
+      exact ⟨rfl, by rw [← h]⟩
+
+/-! ### well-formedness bookkeeping -/
+
+theorem wfFile_frozen (fs : FS) (fuel : Nat) (isTop : Bool) (path : Path) (ph ph' : Bool)
+    (h : wfFile fs fuel isTop path true ph = some ph') : ph' = ph := by
+  cases fuel with
+  | zero => simp [wfFile] at h
+  | succ fuel =>
+    unfold wfFile at h
+    cases hf : fsGet fs path with
+    | none => simp [hf] at h
+    | some raws =>
+      simp only [hf] at h
+      split at h
+      · cases h
+      · rename_i w hw
+        split at h
+        · rename_i hc
+          injection h with h
+          simp only [Bool.and_eq_true, Bool.not_true, Bool.false_or, beq_iff_eq] at hc
+          rw [← h]; exact hc.2
+        · cases h
+
+/-- forgetting that a header has been seen only weakens the relation -/
+theorem rel_fresh (w : WfSt) (ph : Bool) (frozen isTop : Bool) (fc : Option Cond) (anc : List Group) (m0 : List (String × String))
+    (defs : List String) (Gt : Glob) (Lt : Loc) (Gf : Glob) (Lf : Loc) (hph : ph = w.phase2)
+    (R : Rel w frozen isTop fc anc m0 defs Gt Lt Gf Lf) :
+    Rel { w with phase2 := ph, fresh := true } frozen isTop fc anc m0 defs Gt Lt Gf Lf := by
+  subst hph
+  exact ⟨R.g, ⟨R.c.condT, R.c.condF, R.c.condPhase⟩,
+    ⟨R.s.shapeT, R.s.shapeF, (fun h => (by cases h)), R.s.secMol, R.s.molSec⟩,
+    ⟨R.i.ownT, R.i.itpT, R.i.itpF, R.i.phaseF, R.i.ownPhase, R.i.secMolOwn, R.i.mols, R.i.molsTop, R.i.perm,
+     (fun h => (by cases h))⟩⟩
+
+/-! ### returning from an included file -/
+
+theorem rel_after_child (w wc : WfSt) (frozen isTop : Bool) (fc fc' : Option Cond) (anc : List Group)
+    (m0 : List (String × String)) (defs defs' : List String)
+    (Gt : Glob) (Lt : Loc) (Gf : Glob) (Lf : Loc) (Gt1 : Glob) (Lt1 : Loc) (Gf' : Glob) (Lf' : Loc) (Gt' : Glob) (ph : Bool)
+    (R : Rel w frozen isTop fc anc m0 defs Gt Lt Gf Lf)
+    (Rc : Rel wc (frozen || w.cond.isSome) false fc' (anc ++ Lt.itpLines ++ openOf Lt.itp) (m0 ++ Lt.mols) defs'
+            Gt1 Lt1 Gf' Lf')
+    (hfc : fc' = if frozen then fc else Lf.cond)
+    (hfin : finalize Gt1 Lt1 = .ok Gt')
+    (hcond : wc.cond = none) (hph : wc.phase2 = ph) (hfrz : (frozen || w.cond.isSome) = true → ph = w.phase2)
+    (hmono : w.phase2 = true → ph = true) :
+    Rel { w with phase2 := ph, fresh := true } frozen isTop fc anc m0 defs' Gt' Lt Gf' Lf' := by
+  have hmols1 : Lt1.mols = [] := Rc.i.molsTop rfl
+  obtain ⟨hc1, hread⟩ := finalize_child Gt1 Gt' Lt1 Rc.i.itpT hmols1 hfin
+  obtain ⟨hgr, hdef, hdflt, hat, hnb, hty, hmol, hidx, _, hnames⟩ := readGroups_spec _ _ _ hread
+  refine ⟨?_, ?_, ?_, ?_⟩
+  · -- global part
+    exact { tables := ⟨by rw [hdef]; exact Rc.g.tables.defines, by rw [hdflt]; exact Rc.g.tables.defaults,
+                       by rw [hat]; exact Rc.g.tables.atomTypes, by rw [hnb]; exact Rc.g.tables.nonbond,
+                       by rw [hty]; exact Rc.g.tables.types⟩,
+            defsOk := (by intro t; rw [hdef]; exact Rc.g.defsOk t),
+            gfEmpty := Rc.g.gfEmpty,
+            gtMols := ⟨by rw [hmol]; exact Rc.g.gtMols.1, by rw [hidx]; exact Rc.g.gtMols.2⟩,
+            names := hnames Rc.g.names }
+  · -- conditional part
+    have hcT := R.c.condT
+    refine { condT := hcT, condF := ?_, condPhase := ?_ }
+    · cases hfz : frozen with
+      | true =>
+        have hp := R.c.condF
+        simp only [hfz, if_true] at hp
+        have hcc := Rc.c.condF
+        simp only [hfz, Bool.true_or, if_true] at hcc hfc
+        subst hfc
+        exact ⟨hcc.1, hcc.2.1, hcc.2.2.1, hp.2.2.2⟩
+      | false =>
+        have hp := R.c.condF
+        simp only [hfz, Bool.false_eq_true, if_false] at hp hfc ⊢
+        cases hcs : w.cond.isSome with
+        | true =>
+          have hcc := Rc.c.condF
+          simp only [hfz, hcs, Bool.or_true, if_true] at hcc
+          rw [hcc.1, hfc, hp]
+        | false =>
+          have hcc := Rc.c.condF
+          simp only [hfz, hcs, Bool.or_false, Bool.false_eq_true, if_false] at hcc
+          rw [hcc, Rc.c.condT, hcond, hcT]
+          have : w.cond = none := by
+            cases hw : w.cond with
+            | none => rfl
+            | some p => rw [hw] at hcs; cases hcs
+          rw [this]
+    · intro hp2
+      show w.cond = none
+      cases hcs : w.cond.isSome with
+      | false =>
+        cases hw : w.cond with
+        | none => rfl
+        | some p => rw [hw] at hcs; cases hcs
+      | true =>
+        have : ph = w.phase2 := hfrz (by simp [hcs])
+        exact R.c.condPhase (by rw [← this]; exact hp2)
+  · exact ⟨R.s.shapeT, Rc.s.shapeF, (fun h => (by cases h)), R.s.secMol, R.s.molSec⟩
+  · have I := R.i
+    have Ic := Rc.i
+    refine { ownT := I.ownT, itpT := I.itpT, itpF := Ic.itpF, phaseF := (by show ph = _; rw [← hph]; exact Ic.phaseF),
+             ownPhase := (fun h => hmono (I.ownPhase h)), secMolOwn := I.secMolOwn,
+             mols := (by rw [Ic.mols, hmols1]; simp), molsTop := I.molsTop, perm := ?_,
+             alive := (fun h => (by cases h)) }
+    -- the groups: the child's groups have moved from "current director" to "already read"
+    rw [hgr]
+    refine List.Perm.trans ?_ Ic.perm
+    apply List.Perm.map
+    have : Gt1.groups ++ (Lt1.itpLines ++ openOf Lt1.itp) ++ anc ++ Lt.itpLines ++ openOf Lt.itp
+        = Gt1.groups ++ ((Lt1.itpLines ++ openOf Lt1.itp) ++ (anc ++ Lt.itpLines ++ openOf Lt.itp)) := by
+      simp [List.append_assoc]
+    rw [this]
+    have : Gt1.groups ++ (anc ++ Lt.itpLines ++ openOf Lt.itp) ++ Lt1.itpLines ++ openOf Lt1.itp
+        = Gt1.groups ++ ((anc ++ Lt.itpLines ++ openOf Lt.itp) ++ (Lt1.itpLines ++ openOf Lt1.itp)) := by
+      simp [List.append_assoc]
+    rw [this]
+    exact List.Perm.append_left _ List.perm_append_comm
+
+/-! ### entering an included file -/
+
+theorem rel_child_start (w : WfSt) (frozen isTop : Bool) (fc : Option Cond) (anc : List Group) (m0 : List (String × String))
+    (defs : List String) (Gt : Glob) (Lt : Loc) (Gf : Glob) (Lf : Loc)
+    (R : Rel w frozen isTop fc anc m0 defs Gt Lt Gf Lf) (hact : switchedOff Gt Lt.cond = false) :
+    Rel { phase2 := w.phase2 } (frozen || w.cond.isSome) false (if frozen then fc else Lf.cond)
+        (anc ++ Lt.itpLines ++ openOf Lt.itp) (m0 ++ Lt.mols) defs Gt {} Gf Lf := by
+  refine ⟨R.g, ?_, ?_, ?_⟩
+  · refine { condT := rfl, condF := ?_, condPhase := fun _ => rfl }
+    have hp := R.c.condF
+    cases hfz : frozen with
+    | true =>
+      simp only [hfz, if_true] at hp
+      simp only [Bool.true_or, if_true]
+      exact ⟨hp.1, hp.2.1, hp.2.2.1, trivial⟩
+    | false =>
+      simp only [hfz, Bool.false_eq_true, if_false] at hp
+      cases hcs : w.cond.isSome with
+      | true =>
+        simp only [Bool.false_or, if_true, Bool.false_eq_true, if_false]
+        refine ⟨trivial, ?_, ?_, trivial⟩
+        · rw [hp, R.c.condT, condOf_isSome]; exact hcs
+        · rw [hp, ← switchedOff_defines Gf, switchedOff_congr Gf Gt _ R.g.tables.defines.symm]; exact hact
+      | false =>
+        simp only [Bool.false_or, Bool.false_eq_true, if_false]
+        rw [hp, R.c.condT]
+        have : w.cond = none := by
+          cases hw : w.cond with
+          | none => rfl
+          | some p => rw [hw] at hcs; cases hcs
+        rw [this]; rfl
+  · exact ⟨SecShape.empty, R.s.shapeF, (fun h => (by cases h)),
+      ⟨(fun h => (by cases h)), (fun h => (by rcases h with h | ⟨y, h⟩ <;> cases h))⟩,
+      ⟨(fun h => (by cases h)), (fun h => (by cases h))⟩⟩
+  · have I := R.i
+    exact { ownT := rfl, itpT := Or.inl rfl, itpF := I.itpF, phaseF := I.phaseF, ownPhase := (fun h => (by cases h)),
+            secMolOwn := (fun h => (by cases h)), mols := (by simp [I.mols]), molsTop := (fun _ => rfl),
+            perm := (by
+              have := I.perm
+              simpa [openOf, List.append_assoc] using this),
+            alive := (fun h => (by cases h)) }
+
+/-- the statement proved by induction on the include depth: an included file -/
+def SimFile (fs : FS) (fuel : Nat) : Prop :=
+  ∀ (path : Path) (frozen ph ph' : Bool) (fc : Option Cond) (anc : List Group) (m0 : List (String × String))
+    (fst fst' : FlatSt) (Gt gt' Gf : Glob) (Lf : Loc),
+    wfFile fs fuel false path frozen ph = some ph' →
+    flattenFile fs fuel path fst = .ok fst' →
+    readFile fs fuel path Gt = .ok gt' →
+    flatRun fst.out = .ok (Gf, Lf) →
+    Rel { phase2 := ph } frozen false fc anc m0 fst.defs Gt {} Gf Lf →
+    ∃ Gf' Lf' Gt1 Lt1 w',
+      flatRun fst'.out = .ok (Gf', Lf') ∧ finalize Gt1 Lt1 = .ok gt' ∧
+      Rel w' frozen false fc anc m0 fst'.defs Gt1 Lt1 Gf' Lf' ∧
+      w'.cond = none ∧ w'.phase2 = ph' ∧ (ph = true → ph' = true)
+
+theorem include_consts (toks : List String) (h : (toks.headD "" == "#include") = true) :
+    (toks == ["#endif"]) = false ∧ startsWith (toks.headD "") "#else" = false ∧
+    (startsWith (toks.headD "") "#ifdef" || startsWith (toks.headD "") "#ifndef") = false ∧
+    (toks.headD "" == "#define") = false ∧ (toks.headD "" == "#error") = false := by
+  have e : toks.headD "" = "#include" := by simpa using h
+  refine ⟨?_, ?_, ?_, ?_, ?_⟩
+  · cases toks with
+    | nil => rfl
+    | cons a b =>
+      simp only [List.headD_cons] at e
+      subst e
+      cases b <;> simp
+  · rw [e]; decide
+  · rw [e]; decide
+  · rw [e]; decide
+  · rw [e]; decide
+
+theorem sim_include (fs : FS) (fuel : Nat) (IH : SimFile fs fuel)
+    (w w' : WfSt) (frozen isTop : Bool) (fc : Option Cond) (anc : List Group)
+    (m0 : List (String × String)) (Gt : Glob) (Lt : Loc) (Gf : Glob) (Lf : Loc) (Gt' : Glob) (Lt' : Loc)
+    (dir : Path) (c c' : Option (Bool × String)) (fst fst' : FlatSt) (raw : String) (toks : List String)
+    (hinc : (toks.headD "" == "#include") = true)
+    (R : Rel w frozen isTop fc anc m0 fst.defs Gt Lt Gf Lf) (hc : w.swallow = false → c = w.cond)
+    (hflat : flatRun fst.out = .ok (Gf, Lf))
+    (hw : wfPragma (fun p fr ph => wfFile fs fuel false p fr ph) dir frozen w toks = some w')
+    (ht : doPragma (readFile fs fuel) dir Gt Lt toks = .ok (Gt', Lt'))
+    (hf : flatPragma (flattenFile fs fuel) dir c fst raw toks = .ok (c', fst')) :
+    (w'.swallow = false → c' = w'.cond) ∧ (w.phase2 = true → w'.phase2 = true) ∧
+      ∃ Gf' Lf', flatRun fst'.out = .ok (Gf', Lf') ∧ Rel w' frozen isTop fc anc m0 fst'.defs Gt' Lt' Gf' Lf' := by
+  obtain ⟨k1, k2, k3, k4, k5⟩ := include_consts toks hinc
+  unfold wfPragma at hw
+  unfold doPragma at ht
+  unfold flatPragma at hf
+  simp only [k1, k2, k3, k4, k5, hinc, Bool.false_eq_true, if_false, if_true] at hw ht hf
+  match toks, hw, ht, hf with
+  | _ :: p :: _, hw, ht, hf =>
+    simp only at hw ht hf
+    split at hw
+    · cases hw
+    · rename_i hsw
+      have hsw' : w.swallow = false := by simpa using hsw
+      have hcc : c = w.cond := hc hsw'
+      cases hn : normPath (dir ++ splitPath (includePath p)) with
+      | none => simp [hn] at hw
+      | some full =>
+        simp only [hn] at hw ht hf
+        cases hwf : wfFile fs fuel false full (frozen || w.cond.isSome) w.phase2 with
+        | none => simp [hwf] at hw
+        | some ph =>
+          simp only [hwf] at hw
+          injection hw with hw; subst hw
+          have hholds : holds fst.defs c = !switchedOff Gt Lt.cond := by
+            rw [hcc, holds_eq fst.defs Gt w.cond R.g.defsOk, R.c.condT]
+          cases hoff : switchedOff Gt Lt.cond with
+          | true =>
+            -- the include is switched off: nothing is read, nothing is emitted
+            simp only [hoff, if_true] at ht
+            simp only [hholds, hoff, Bool.not_true, Bool.false_eq_true, if_false] at hf
+            injection ht with ht; injection ht with hg hl; subst hg hl
+            injection hf with hf; injection hf with hc' hfst; subst hc' hfst
+            have hcs : w.cond.isSome = true := by
+              cases hwc : w.cond with
+              | some x => rfl
+              | none =>
+                have := R.c.condT
+                rw [hwc] at this
+                rw [this] at hoff
+                simp [condOf, switchedOff] at hoff
+            have hph : ph = w.phase2 := by
+              have := wfFile_frozen fs fuel false full w.phase2 ph (by simpa [hcs] using hwf)
+              exact this
+            exact ⟨fun _ => hcc, fun h => by rw [hph]; exact h, Gf, Lf, hflat, rel_fresh w ph frozen isTop fc anc m0 _ Gt Lt Gf Lf hph R⟩
+          | false =>
+            simp only [hoff, Bool.false_eq_true, if_false] at ht
+            simp only [hholds, hoff, Bool.not_false, if_true] at hf
+            cases hrf : readFile fs fuel full Gt with
+            | error e => simp [hrf, Except.map] at ht
+            | ok gt1 =>
+              simp only [hrf, Except.map] at ht
+              injection ht with ht; injection ht with hg hl; subst hg hl
+              cases hff : flattenFile fs fuel full fst with
+              | error e => simp [hff, Except.map] at hf
+              | ok fst1 =>
+                simp only [hff, Except.map] at hf
+                injection hf with hf; injection hf with hc' hfst; subst hc' hfst
+                have Rstart := rel_child_start w frozen isTop fc anc m0 _ Gt Lt Gf Lf R hoff
+                obtain ⟨Gf', Lf', Gt1, Lt1, wc, hfl', hfin, Rc, hcnone, hphc, hmono⟩ :=
+                  IH full (frozen || w.cond.isSome) w.phase2 ph _ _ _ fst fst1 Gt gt1 Gf Lf hwf hff hrf hflat Rstart
+                have hfrz : (frozen || w.cond.isSome) = true → ph = w.phase2 := by
+                  intro hfz
+                  rw [hfz] at hwf
+                  exact wfFile_frozen fs fuel false full w.phase2 ph hwf
+                have Rafter := rel_after_child w wc frozen isTop fc _ anc m0 _ _ Gt Lt Gf Lf Gt1 Lt1 Gf' Lf' gt1 ph
+                  R Rc rfl hfin hcnone hphc hfrz hmono
+                exact ⟨fun _ => hcc, hmono, Gf', Lf', hfl', Rafter⟩
+  | [], hw, _, _ => simp at hw
+  | [_], hw, _, _ => simp at hw
+
+theorem wfPragma_phase (incW : Path → Bool → Bool → Option Bool) (dir : Path) (frozen : Bool) (w w' : WfSt)
+    (toks : List String) (hni : (toks.headD "" == "#include") = false)
+    (hw : wfPragma incW dir frozen w toks = some w') : w'.phase2 = w.phase2 := by
+  unfold wfPragma at hw
+  simp only at hw
+  by_cases c1 : (toks == ["#endif"]) = true
+  · rw [if_pos c1] at hw
+    by_cases hp : w.phase2 = true
+    · rw [if_pos hp] at hw
+      split at hw
+      · injection hw with hw; subst hw; rfl
+      · cases hw
+    · rw [if_neg hp] at hw
+      split at hw
+      · injection hw with hw; subst hw; rfl
+      · cases hw
+  · rw [if_neg c1] at hw
+    by_cases c2 : startsWith (toks.headD "") "#else" = true
+    · rw [if_pos c2] at hw
+      split at hw
+      · cases hw
+      · by_cases hp : w.phase2 = true
+        · rw [if_pos hp] at hw
+          split at hw
+          · injection hw with hw; subst hw; rfl
+          · cases hw
+        · rw [if_neg hp] at hw
+          cases hcw : w.cond with
+          | none => simp [hcw] at hw
+          | some bt => simp only [hcw] at hw; injection hw with hw; subst hw; rfl
+    · rw [if_neg c2] at hw
+      by_cases c3 : (startsWith (toks.headD "") "#ifdef" || startsWith (toks.headD "") "#ifndef") = true
+      · rw [if_pos c3] at hw
+        match toks, hw with
+        | [k, tag], hw =>
+          simp only at hw
+          split at hw
+          · cases hw
+          · by_cases hp : w.phase2 = true
+            · rw [if_pos hp] at hw
+              split at hw
+              · injection hw with hw; subst hw; rfl
+              · cases hw
+            · rw [if_neg hp] at hw
+              split at hw
+              · injection hw with hw; subst hw; rfl
+              · cases hw
+        | [], hw => simp at hw
+        | [_], hw => simp at hw
+        | _ :: _ :: _ :: _, hw => simp at hw
+      · rw [if_neg c3] at hw
+        by_cases c4 : (toks.headD "" == "#define") = true
+        · rw [if_pos c4] at hw
+          split at hw
+          · injection hw with hw; subst hw; rfl
+          · cases hw
+        · rw [if_neg c4] at hw
+          by_cases c5 : (toks.headD "" == "#error") = true
+          · rw [if_pos c5] at hw
+            split at hw
+            · cases hw
+            · injection hw with hw; subst hw; rfl
+          · rw [if_neg c5, hni] at hw
+            simp at hw
+
+/-! ### one line, all lines, a whole file -/
+
+/-- what the tree director does with one raw line -/
+def treeLine (inc : Path → Glob → Except String Glob) (dir : Path) (st : Glob × Loc) (raw : String) :
+    Except String (Glob × Loc) :=
+  match classify raw with
+  | none => .ok st
+  | some line => step inc dir st line
+
+theorem runLines_parse_cons (inc : Path → Glob → Except String Glob) (dir : Path) (raw : String) (rest : List String)
+    (st : Glob × Loc) :
+    runLines inc dir (parseLines (raw :: rest)) st =
+      (match treeLine inc dir st raw with
+       | .error e => .error e
+       | .ok st' => runLines inc dir (parseLines rest) st') := by
+  unfold treeLine
+  simp only [parseLines, List.filterMap_cons]
+  cases classify raw with
+  | none => rfl
+  | some line => rfl
+
+theorem flatRun_keep (out : List String) (raw : String) (Gf : Glob) (Lf : Loc) (hflat : flatRun out = .ok (Gf, Lf)) :
+    flatRun (out ++ [raw]) = treeLine noInc [] (Gf, Lf) raw := by
+  rw [flatRun_snoc, hflat]
+  unfold treeLine
+  cases classify raw <;> rfl
+
+theorem sim_line (fs : FS) (fuel : Nat) (IH : SimFile fs fuel)
+    (w w1 : WfSt) (frozen isTop : Bool) (fc : Option Cond) (anc : List Group)
+    (m0 : List (String × String)) (Gt : Glob) (Lt : Loc) (Gf : Glob) (Lf : Loc) (Gt1 : Glob) (Lt1 : Loc)
+    (dir : Path) (c c1 : Option (Bool × String)) (fst fst1 : FlatSt) (raw : String)
+    (R : Rel w frozen isTop fc anc m0 fst.defs Gt Lt Gf Lf) (hc : w.swallow = false → c = w.cond)
+    (hflat : flatRun fst.out = .ok (Gf, Lf))
+    (hw : wfLine (fun p fr ph => wfFile fs fuel false p fr ph) dir frozen isTop w raw = some w1)
+    (ht : treeLine (readFile fs fuel) dir (Gt, Lt) raw = .ok (Gt1, Lt1))
+    (hf : flatLine (flattenFile fs fuel) dir c fst raw = .ok (c1, fst1)) :
+    (w1.swallow = false → c1 = w1.cond) ∧ (w.phase2 = true → w1.phase2 = true) ∧
+      ∃ Gf1 Lf1, flatRun fst1.out = .ok (Gf1, Lf1) ∧ Rel w1 frozen isTop fc anc m0 fst1.defs Gt1 Lt1 Gf1 Lf1 := by
+  unfold wfLine at hw
+  unfold treeLine at ht
+  unfold flatLine at hf
+  cases hcl : classify raw with
+  | none =>
+    simp only [hcl] at hw ht hf
+    injection hw with hw; subst hw
+    injection ht with ht; injection ht with hg hl; subst hg hl
+    injection hf with hf; injection hf with h1 h2; subst h1 h2
+    refine ⟨hc, id, Gf, Lf, ?_, R⟩
+    rw [flatRun_keep _ raw Gf Lf hflat]; unfold treeLine; rw [hcl]
+  | some line =>
+    cases line with
+    | star =>
+      simp only [hcl] at hw ht hf
+      injection hw with hw; subst hw
+      simp only [step] at ht
+      injection ht with ht; injection ht with hg hl; subst hg hl
+      injection hf with hf; injection hf with h1 h2; subst h1 h2
+      refine ⟨hc, id, Gf, Lf, ?_, R⟩
+      rw [flatRun_keep _ raw Gf Lf hflat]; unfold treeLine; rw [hcl]; rfl
+    | badHeader => simp [hcl] at hw
+    | header name =>
+      simp only [hcl] at hw ht hf
+      simp only [step] at ht
+      injection ht with ht; injection ht with hg hl; subst hg hl
+      injection hf with hf; injection hf with h1 h2; subst h1 h2
+      have R' := sim_header w w1 frozen isTop fc anc m0 _ Gt Lt Gf Lf name R hw
+      have hflat' : flatRun (fst.out ++ [raw]) = .ok (Gf, doHeader Lf name) := by
+        rw [flatRun_keep _ raw Gf Lf hflat]; unfold treeLine; rw [hcl]; rfl
+      refine ⟨?_, ?_, Gf, _, hflat', R'⟩
+      · -- the scan state keeps `cond` and `swallow` (headers need swallow = false where they reset anything)
+        intro hs
+        by_cases hm : (name == "moleculetype") = true
+        · simp only [hm, if_true] at hw
+          split at hw
+          · rename_i hcnd
+            injection hw with hw; subst hw
+            simp only [Bool.and_eq_true, Bool.not_eq_true'] at hcnd
+            exact hc hcnd.2
+          · cases hw
+        · simp only [hm, Bool.false_eq_true, if_false] at hw
+          by_cases hsub : molSubsections.contains name = true
+          · simp only [hsub, if_true] at hw
+            split at hw
+            · injection hw with hw; subst hw; exact hc hs
+            · cases hw
+          · simp only [hsub, Bool.false_eq_true, if_false] at hw
+            split at hw
+            · cases hw
+            · rename_i hsw
+              injection hw with hw; subst hw
+              exact hc (by simpa using hsw)
+      · intro hp
+        by_cases hm : (name == "moleculetype") = true
+        · simp only [hm, if_true] at hw
+          split at hw
+          · injection hw with hw; subst hw; rfl
+          · cases hw
+        · simp only [hm, Bool.false_eq_true, if_false] at hw
+          by_cases hsub : molSubsections.contains name = true
+          · simp only [hsub, if_true] at hw
+            split at hw
+            · injection hw with hw; subst hw; exact hp
+            · cases hw
+          · simp only [hsub, Bool.false_eq_true, if_false] at hw
+            split at hw
+            · cases hw
+            · injection hw with hw; subst hw; exact hp
+    | content toks =>
+      simp only [hcl] at hw ht hf
+      simp only [step] at ht
+      injection hf with hf; injection hf with h1 h2; subst h1 h2
+      split at hw
+      · cases hw
+      · rename_i hfr
+        split at hw
+        · cases hw
+        · rename_i hms
+          injection hw with hw; subst hw
+          have hfresh : w.fresh = false := by simpa using hfr
+          have hmol : w.molSec = true → isTop = true := by
+            intro h
+            simp only [Bool.and_eq_true, Bool.not_eq_true', not_and, Bool.not_eq_false] at hms
+            exact hms h
+          obtain ⟨Gf', Lf', hdo, R'⟩ := sim_content w frozen isTop fc anc m0 _ Gt Lt Gf Lf toks Gt1 Lt1 R hfresh hmol ht
+          refine ⟨hc, id, Gf', Lf', ?_, R'⟩
+          rw [flatRun_keep _ raw Gf Lf hflat]; unfold treeLine; rw [hcl]; exact hdo
+    | pragma toks =>
+      simp only [hcl] at hw ht hf
+      simp only [step] at ht
+      by_cases hinc : (toks.headD "" == "#include") = true
+      · obtain ⟨h1, h2, Gf', Lf', h3, h4⟩ := sim_include fs fuel IH w w1 frozen isTop fc anc m0 Gt Lt Gf Lf Gt1 Lt1 dir c c1
+          fst fst1 raw toks hinc R hc hflat hw ht hf
+        exact ⟨h1, h2, Gf', Lf', h3, h4⟩
+      · have hni : (toks.headD "" == "#include") = false := by simpa using hinc
+        obtain ⟨hout, hc1, Gf', Lf', hdo, R'⟩ := sim_pragma_noinc w w1 frozen isTop fc anc m0 Gt Lt Gf Lf Gt1 Lt1 _ _ _ dir c c1
+          fst fst1 raw toks hni R hc hw ht hf
+        refine ⟨hc1, ?_, Gf', Lf', ?_, R'⟩
+        · -- no pragma other than #include changes the phase
+          intro hp
+          rw [wfPragma_phase _ dir frozen w w1 toks hni hw]; exact hp
+        · rw [hout, flatRun_keep _ raw Gf Lf hflat]; unfold treeLine; rw [hcl]; exact hdo
+
+theorem sim_lines (fs : FS) (fuel : Nat) (IH : SimFile fs fuel) (frozen isTop : Bool) (fc : Option Cond) (anc : List Group)
+    (m0 : List (String × String)) (dir : Path) :
+    ∀ (raws : List String) (w w' : WfSt) (c : Option (Bool × String)) (fst fst' : FlatSt)
+      (Gt : Glob) (Lt : Loc) (Gt' : Glob) (Lt' : Loc) (Gf : Glob) (Lf : Loc),
+      wfLines (fun p fr ph => wfFile fs fuel false p fr ph) dir frozen isTop raws w = some w' →
+      flattenLines (flattenFile fs fuel) dir raws c fst = .ok fst' →
+      runLines (readFile fs fuel) dir (parseLines raws) (Gt, Lt) = .ok (Gt', Lt') →
+      flatRun fst.out = .ok (Gf, Lf) →
+      Rel w frozen isTop fc anc m0 fst.defs Gt Lt Gf Lf → (w.swallow = false → c = w.cond) →
+      (w.phase2 = true → w'.phase2 = true) ∧
+        ∃ Gf' Lf', flatRun fst'.out = .ok (Gf', Lf') ∧ Rel w' frozen isTop fc anc m0 fst'.defs Gt' Lt' Gf' Lf' := by
+  intro raws
+  induction raws with
+  | nil =>
+    intro w w' c fst fst' Gt Lt Gt' Lt' Gf Lf hw hf ht hflat R _
+    simp only [wfLines] at hw
+    simp only [flattenLines] at hf
+    simp only [parseLines, List.filterMap_nil, runLines] at ht
+    injection hw with hw; subst hw
+    injection hf with hf; subst hf
+    injection ht with ht; injection ht with hg hl; subst hg hl
+    exact ⟨id, Gf, Lf, hflat, R⟩
+  | cons raw rest ih =>
+    intro w w' c fst fst' Gt Lt Gt' Lt' Gf Lf hw hf ht hflat R hc
+    simp only [wfLines] at hw
+    simp only [flattenLines] at hf
+    rw [runLines_parse_cons] at ht
+    cases hw1 : wfLine (fun p fr ph => wfFile fs fuel false p fr ph) dir frozen isTop w raw with
+    | none => simp [hw1] at hw
+    | some w1 =>
+      simp only [hw1] at hw
+      cases hf1 : flatLine (flattenFile fs fuel) dir c fst raw with
+      | error e => simp [hf1] at hf
+      | ok r =>
+        obtain ⟨c1, fst1⟩ := r
+        simp only [hf1] at hf
+        cases ht1 : treeLine (readFile fs fuel) dir (Gt, Lt) raw with
+        | error e => simp [ht1] at ht
+        | ok st1 =>
+          obtain ⟨Gt1, Lt1⟩ := st1
+          simp only [ht1] at ht
+          obtain ⟨hc1, hm1, Gf1, Lf1, hflat1, R1⟩ := sim_line fs fuel IH w w1 frozen isTop fc anc m0 Gt Lt Gf Lf Gt1 Lt1
+            dir c c1 fst fst1 raw R hc hflat hw1 ht1 hf1
+          obtain ⟨hm2, Gf', Lf', hflat', R'⟩ := ih w1 w' c1 fst1 fst' Gt1 Lt1 Gt' Lt' Gf1 Lf1 hw hf ht hflat1 R1 hc1
+          exact ⟨fun h => hm2 (hm1 h), Gf', Lf', hflat', R'⟩
+
+theorem sim_file (fs : FS) : ∀ fuel, SimFile fs fuel := by
+  intro fuel
+  induction fuel with
+  | zero =>
+    intro path frozen ph ph' fc anc m0 fst fst' Gt gt' Gf Lf hw
+    simp [wfFile] at hw
+  | succ fuel IH =>
+    intro path frozen ph ph' fc anc m0 fst fst' Gt gt' Gf Lf hw hf ht hflat R
+    unfold wfFile at hw
+    unfold flattenFile at hf
+    unfold readFile at ht
+    cases hget : fsGet fs path with
+    | none => simp [hget] at hw
+    | some raws =>
+      simp only [hget] at hw hf ht
+      cases hwl : wfLines (fun p fr ph => wfFile fs fuel false p fr ph) path.dropLast frozen false raws { phase2 := ph } with
+      | none => simp [hwl] at hw
+      | some w' =>
+        simp only [hwl] at hw
+        split at hw
+        · rename_i hend
+          injection hw with hw
+          simp only [Bool.and_eq_true, Option.isNone_iff_eq_none, Bool.not_eq_true'] at hend
+          cases hrl : runLines (readFile fs fuel) path.dropLast (parseLines raws) (Gt, {}) with
+          | error e => simp [hrl] at ht
+          | ok st1 =>
+            obtain ⟨Gt1, Lt1⟩ := st1
+            simp only [hrl] at ht
+            obtain ⟨hmono, Gf', Lf', hflat', R'⟩ := sim_lines fs fuel IH frozen false fc anc m0 path.dropLast raws
+              { phase2 := ph } w' none fst fst' Gt {} Gt1 Lt1 Gf Lf hwl hf hrl hflat R (fun _ => rfl)
+            exact ⟨Gf', Lf', Gt1, Lt1, w', hflat', ht, R', hend.1.1, hw, fun h => by rw [← hw]; exact hmono h⟩
+        · cases hw
+
+/-! ### the top file -/
+
+/-- what the property compares: the tables (type tables without the conditional tag), the collected molecule
+types (as a multiset, after cutting what vermouth's itp reader ignores), the molecule list and `mol_idx_by_name` -/
+structure ObsEq (a b : Glob) : Prop where
+  tables : SameTables a b
+  groups : (a.groups.map sealGroup).Perm (b.groups.map sealGroup)
+  molecules : a.molecules = b.molecules
+  molIdx : a.molIdx = b.molIdx
+
+theorem readGroups_ok (grps : List Group) (g : Glob) (h : ∀ grp ∈ grps, ∃ n, groupName grp = .ok n) :
+    ∃ g', readGroups g grps = .ok g' := by
+  induction grps generalizing g with
+  | nil => exact ⟨g, rfl⟩
+  | cons grp rest ih =>
+    obtain ⟨n, hn⟩ := h grp List.mem_cons_self
+    unfold readGroups
+    rw [hn]
+    exact ih _ (fun x hx => h x (List.mem_cons_of_mem _ hx))
+
+theorem expandMols_congr (mols : List (String × String)) (g1 g2 g1' : Glob) (count : Nat)
+    (hm : g1.molecules = g2.molecules) (hi : g1.molIdx = g2.molIdx)
+    (hb : ∀ n, g1.blockNames.contains n = g2.blockNames.contains n)
+    (h : expandMols g1 count mols = .ok g1') :
+    ∃ g2', expandMols g2 count mols = .ok g2' ∧ g2'.molecules = g1'.molecules ∧ g2'.molIdx = g1'.molIdx ∧
+      g2'.groups = g2.groups ∧ g2'.defines = g2.defines ∧ g2'.defaults = g2.defaults ∧ g2'.atomTypes = g2.atomTypes ∧
+      g2'.nonbond = g2.nonbond ∧ g2'.types = g2.types ∧
+      g1'.groups = g1.groups ∧ g1'.defines = g1.defines ∧ g1'.defaults = g1.defaults ∧ g1'.atomTypes = g1.atomTypes ∧
+      g1'.nonbond = g1.nonbond ∧ g1'.types = g1.types := by
+  induction mols generalizing g1 g2 count with
+  | nil =>
+    simp [expandMols] at h; subst h
+    exact ⟨g2, rfl, hm.symm, hi.symm, rfl, rfl, rfl, rfl, rfl, rfl, rfl, rfl, rfl, rfl, rfl, rfl⟩
+  | cons hd rest ih =>
+    obtain ⟨name, n⟩ := hd
+    unfold expandMols at h ⊢
+    rw [← hb name]
+    by_cases hc : g1.blockNames.contains name = true
+    · simp only [hc, Bool.not_true, Bool.false_eq_true, if_false] at h ⊢
+      cases hn : natOfTok n with
+      | none => simp [hn] at h
+      | some k =>
+        simp only [hn] at h ⊢
+        rw [← hm, ← hi]
+        obtain ⟨g2', h1, h2, h3, h4, h5, h6, h7, h8, h9, h10, h11, h12, h13, h14, h15⟩ :=
+          ih { g1 with molecules := g1.molecules ++ List.replicate k.toNat name,
+                       molIdx := if (k.toNat == 0) = true then g1.molIdx
+                                 else assocSet g1.molIdx name ((assocGet g1.molIdx name).getD [] ++
+                                        (List.range k.toNat).map (· + count)) }
+             { g2 with molecules := g1.molecules ++ List.replicate k.toNat name,
+                       molIdx := if (k.toNat == 0) = true then g1.molIdx
+                                 else assocSet g1.molIdx name ((assocGet g1.molIdx name).getD [] ++
+                                        (List.range k.toNat).map (· + count)) } _ rfl rfl hb h
+        exact ⟨g2', h1, h2, h3, h4, h5, h6, h7, h8, h9, h10, h11, h12, h13, h14, h15⟩
+    · have hmem : name ∉ g1.blockNames := by simpa using hc
+      simp [hmem] at h
+
+theorem names_perm (T F : List Group) (hp : (T.map sealGroup).Perm (F.map sealGroup)) (n : String) :
+    (∃ grp ∈ T, groupName grp = .ok n) ↔ (∃ grp ∈ F, groupName grp = .ok n) := by
+  have key : ∀ (A B : List Group), (A.map sealGroup).Perm (B.map sealGroup) →
+      (∃ grp ∈ A, groupName grp = .ok n) → (∃ grp ∈ B, groupName grp = .ok n) := by
+    intro A B hAB ⟨grp, hg, hn⟩
+    have hm : sealGroup grp ∈ B.map sealGroup := hAB.mem_iff.mp (List.mem_map_of_mem hg)
+    obtain ⟨grp', hg', he⟩ := List.mem_map.mp hm
+    refine ⟨grp', hg', ?_⟩
+    rw [← groupName_seal grp', he, groupName_seal grp, hn]
+  exact ⟨key T F hp, key F T hp.symm⟩
+
+theorem rel_init : Rel { phase2 := false } false true none [] [] ([] : List String) {} {} {} {} := by
+  refine ⟨?_, ?_, ?_, ?_⟩
+  · exact { tables := ⟨rfl, rfl, rfl, rfl, rfl⟩, defsOk := (fun t => rfl), gfEmpty := ⟨rfl, rfl, rfl, rfl⟩,
+            gtMols := ⟨rfl, rfl⟩,
+            names := ⟨(fun grp h => (by cases h)), (fun n => ⟨(fun h => (by cases h)), (fun h => (by obtain ⟨g, hg, _⟩ := h; cases hg))⟩)⟩ }
+  · exact { condT := rfl, condF := rfl, condPhase := fun _ => rfl }
+  · exact ⟨SecShape.empty, SecShape.empty, (fun h => (by cases h)),
+      ⟨(fun h => (by cases h)), (fun h => (by rcases h with h | ⟨y, h⟩ <;> cases h))⟩,
+      ⟨(fun h => (by cases h)), (fun h => (by cases h))⟩⟩
+  · exact { ownT := rfl, itpT := Or.inl rfl, itpF := Or.inl rfl, phaseF := rfl, ownPhase := (fun h => (by cases h)),
+            secMolOwn := (fun h => (by cases h)), mols := rfl, molsTop := (fun h => (by cases h)),
+            perm := List.Perm.refl _, alive := (fun h => (by cases h)) }
+
+/-- **The flattening theorem.**  For a well-formed include tree whose flattened text exists: if the tree is
+read, the flattened text is read by the single-file reader, with the same observables. -/
+theorem flatten_equiv (fs : FS) (top : Path) (st : FlatSt) (gt : Glob)
+    (hwf : wellFormed fs top = true) (hfl : flatten fs top = .ok st) (hrt : readTop fs top = .ok gt) :
+    ∃ gf, readSingle st.out = .ok gf ∧ ObsEq gt gf := by
+  unfold wellFormed at hwf
+  unfold flatten at hfl
+  unfold readTop at hrt
+  unfold wfFile at hwf
+  unfold flattenFile at hfl
+  unfold readFile at hrt
+  cases hget : fsGet fs top with
+  | none => simp [hget] at hwf
+  | some raws =>
+    simp only [hget] at hwf hfl hrt
+    cases hwl : wfLines (fun p fr ph => wfFile fs fs.length false p fr ph) top.dropLast false true raws { phase2 := false } with
+    | none => simp [hwl] at hwf
+    | some w' =>
+      cases hrl : runLines (readFile fs fs.length) top.dropLast (parseLines raws) ({}, {}) with
+      | error e => simp [hrl] at hrt
+      | ok st1 =>
+        obtain ⟨Gt1, Lt1⟩ := st1
+        simp only [hrl] at hrt
+        have hflat0 : flatRun ([] : List String) = .ok (({} : Glob), ({} : Loc)) := rfl
+        obtain ⟨_, Gf', Lf', hflat', R⟩ := sim_lines fs fs.length (sim_file fs fs.length) false true none [] []
+          top.dropLast raws { phase2 := false } w' none {} st {} {} Gt1 Lt1 {} {} hwl hfl hrl hflat0 rel_init (fun _ => rfl)
+        -- the two finalize steps
+        have I := R.i
+        unfold finalize at hrt
+        rw [finalize_groups Lt1 I.itpT] at hrt
+        cases hct : Lt1.cond with
+        | some m => simp [hct] at hrt
+        | none =>
+          simp only [hct, Option.isSome_none, Bool.false_eq_true, if_false] at hrt
+          cases hrg : readGroups Gt1 (Lt1.itpLines ++ openOf Lt1.itp) with
+          | error e => simp [hrg] at hrt
+          | ok G1t =>
+            simp only [hrg] at hrt
+            obtain ⟨hgr, hdef, hdflt, hat, hnb, hty, hmol, hidx, hgood, hnames⟩ := readGroups_spec _ _ _ hrg
+            have NT := hnames R.g.names
+            have hcf : Lf'.cond = none := by
+              have := R.c.condF
+              simp only [Bool.false_eq_true, if_false] at this
+              rw [this, hct]
+            have hperm : ((Gt1.groups ++ Lt1.itpLines ++ openOf Lt1.itp).map sealGroup).Perm
+                ((Lf'.itpLines ++ openOf Lf'.itp).map sealGroup) := by
+              simpa using I.perm
+            -- every group of the flat director has a name
+            have hgoodF : ∀ grp ∈ Lf'.itpLines ++ openOf Lf'.itp, ∃ n, groupName grp = .ok n := by
+              intro grp hg
+              have hm : sealGroup grp ∈ (Gt1.groups ++ Lt1.itpLines ++ openOf Lt1.itp).map sealGroup :=
+                hperm.mem_iff.mpr (List.mem_map_of_mem hg)
+              obtain ⟨grp', hg', he⟩ := List.mem_map.mp hm
+              have : ∃ n, groupName grp' = .ok n := by
+                rw [List.append_assoc] at hg'
+                rcases List.mem_append.mp hg' with h1 | h1
+                · exact R.g.names.good grp' h1
+                · exact hgood grp' h1
+              obtain ⟨n, hn⟩ := this
+              exact ⟨n, by rw [← groupName_seal grp, ← he, groupName_seal grp', hn]⟩
+            obtain ⟨G1f, hrgf⟩ := readGroups_ok _ Gf' hgoodF
+            obtain ⟨hgrf, hdeff, hdfltf, hatf, hnbf, htyf, hmolf, hidxf, _, hnamesf⟩ := readGroups_spec _ _ _ hrgf
+            have NF := hnamesf (by
+              rw [R.g.gfEmpty.1, R.g.gfEmpty.2.1]
+              exact ⟨(fun grp h => (by cases h)), (fun n => ⟨(fun h => (by cases h)), (fun h => (by obtain ⟨g, hg, _⟩ := h; cases hg))⟩)⟩)
+            have hpermG : (G1t.groups.map sealGroup).Perm (G1f.groups.map sealGroup) := by
+              rw [hgr, hgrf, R.g.gfEmpty.1, List.nil_append, ← List.append_assoc]
+              exact hperm
+            have hbn : ∀ n, G1t.blockNames.contains n = G1f.blockNames.contains n := by
+              intro n
+              have h1 := NT.set n
+              have h2 := NF.set n
+              have h3 := names_perm _ _ hpermG n
+              cases ha : G1t.blockNames.contains n with
+              | true => exact (h2.mpr (h3.mp (h1.mp ha))).symm
+              | false =>
+                cases hb : G1f.blockNames.contains n with
+                | false => rfl
+                | true => rw [h1.mpr (h3.mpr (h2.mp hb))] at ha; cases ha
+            have hmolsEq : Lf'.mols = Lt1.mols := by rw [I.mols]; rfl
+            obtain ⟨gf, hexp, em, ei, eg, e1, e2, e3, e4, e5, tg, t1, t2, t3, t4, t5⟩ :=
+              expandMols_congr Lt1.mols G1t G1f gt 0
+                (by rw [hmol, hmolf, R.g.gtMols.1, R.g.gfEmpty.2.2.1])
+                (by rw [hidx, hidxf, R.g.gtMols.2, R.g.gfEmpty.2.2.2]) hbn hrt
+            refine ⟨gf, ?_, ?_⟩
+            · have hrs : readSingle st.out = (match flatRun st.out with
+                    | Except.error e => Except.error e
+                    | Except.ok (g, l) => finalize g l) := rfl
+              rw [hrs, hflat']
+              simp only
+              unfold finalize
+              rw [finalize_groups Lf' I.itpF, hcf]
+              simp only [Option.isSome_none, Bool.false_eq_true, if_false, hrgf, hmolsEq]
+              exact hexp
+            · have T := R.g.tables
+              exact { tables := ⟨by rw [t1, e1, hdef, hdeff]; exact T.defines, by rw [t2, e2, hdflt, hdfltf]; exact T.defaults,
+                                 by rw [t3, e3, hat, hatf]; exact T.atomTypes, by rw [t4, e4, hnb, hnbf]; exact T.nonbond,
+                                 by rw [t5, e5, hty, htyf]; exact T.types⟩,
+                      groups := (by rw [tg, eg]; exact hpermG),
+                      molecules := em.symm, molIdx := ei.symm }
+
 end PolyplyVerif.Proofs.C08Flatten
